@@ -3,11 +3,13 @@ From Coq Require Import NArith List Bool Arith Lia.
 From V Require Import gen.GenIO model.IO.
 Import ListNotations.
 
+Ltac splits := repeat match goal with |- _ /\ _ => split end.
+
 (* ------------------------------------------------------------------ small facts *)
 
 Lemma bytes_of_grow a d : bytes_of (grow a d) = bytes_of a ++ d.
 Proof.
-  unfold bytes_of, grow. rewrite rev_append_rev, rev_app_distr, rev_involutive. reflexivity.
+  unfold bytes_of, grow. rewrite <- !rev_alt. rewrite rev_append_rev, rev_app_distr, rev_involutive. reflexivity.
 Qed.
 
 Lemma write_at_length buf pos d :
@@ -80,10 +82,14 @@ Definition tail_ok (sc : script) : Prop := s_tail sc <> Interrupted.
 (* number of zero-length answers this call added to the log *)
 Definition zero_answer (n len : nat) : nat := if (n =? 0) && (0 <? len) then 1 else 0.
 
+Lemma of_nat_eqb0 n : N.eqb (N.of_nat n) 0 = (n =? 0).
+Proof. destruct n; reflexivity. Qed.
+
 Lemma log_zero_writes_io len n l :
-  log_zero_writes (EvIO len (RN n) :: l) = zero_answer n len + log_zero_writes l.
+  log_zero_writes (EvIO (N.of_nat len) (RN (N.of_nat n)) :: l) = zero_answer n len + log_zero_writes l.
 Proof.
-  unfold zero_answer. destruct len as [|len]; destruct n as [|n]; reflexivity.
+  unfold zero_answer. cbn [log_zero_writes]. rewrite !of_nat_eqb0.
+  destruct len as [|len]; destruct n as [|n]; reflexivity.
 Qed.
 
 Lemma write_apply_le b len : write_apply b len <= len.
@@ -107,17 +113,13 @@ Proof.
     destruct tl; try congruence; cbn [k_got k_script k_log s_tail log_errs];
       rewrite ?bytes_of_grow, ?log_zero_writes_io;
       repeat split; try reflexivity; try apply write_apply_le.
-    destruct (length d); reflexivity.
   - cbn [sink_write_go].
     destruct b; cbn [k_got k_script k_log s_tail log_errs];
       rewrite ?bytes_of_grow, ?log_zero_writes_io;
       try (repeat split; try reflexivity; try apply write_apply_le; fail).
-    + specialize (IH tl d got (EvIO (length d) RInt :: log) Htl).
-      destruct (sink_write_go l tl d got (EvIO (length d) RInt :: log)) as [[n|e|] k'];
-        cbn [log_errs log_zero_writes] in IH; [| |exact IH].
-      * destruct (length d); exact IH.
-      * destruct (length d); exact IH.
-    + repeat split; try reflexivity. destruct (length d); reflexivity.
+    specialize (IH tl d got (EvIO (N.of_nat (length d)) RInt :: log) Htl).
+    destruct (sink_write_go l tl d got (EvIO (N.of_nat (length d)) RInt :: log)) as [[n|e|] k'];
+      cbn [log_errs log_zero_writes] in IH; exact IH.
 Qed.
 
 Lemma sink_write_spec k d :
@@ -196,8 +198,8 @@ Proof.
     destruct b; cbn [src_rest src_taken src_script src_log s_tail log_errs];
       rewrite ?bytes_of_grow;
       try (repeat split; try reflexivity; try assumption; fail).
-    specialize (IH tl room rest taken (EvIO room RInt :: log) Htl).
-    destruct (io_read_go l tl room rest taken (EvIO room RInt :: log)) as [[d|e|] s']; exact IH.
+    specialize (IH tl room rest taken (EvIO (N.of_nat room) RInt :: log) Htl).
+    destruct (io_read_go l tl room rest taken (EvIO (N.of_nat room) RInt :: log)) as [[d|e|] s']; exact IH.
 Qed.
 
 Definition src_taken_bytes (s : source) : list byte := bytes_of (src_taken s).
@@ -295,4 +297,1494 @@ Proof.
       exists 0. cbn [firstn wa_res wa_sink wa_ez wa_ei]. rewrite app_nil_r.
       split; [lia|]. split; [exact Hb|]. split; [exact Ht'|].
       left. exists e. auto.
+Qed.
+
+(* ------------------------------------------------------------------ the encoder contract *)
+
+Section Contract.
+Variable estate : Type.
+Variable enc_step : estate -> op -> list byte -> nat -> eans estate.
+Variable enc_finished enc_more : estate -> bool.
+
+(* [accepting s]: stream_state == PROCESSING (new input is accepted);
+   [live s]: FINISH has not been requested yet (PROCESSING or FLUSH_REQUESTED);
+   [potential s]: an upper bound on what the encoder can still emit without new input;
+   [G]: by how much one more accepted input byte can raise that bound. *)
+Variable accepting : estate -> bool.
+Variable live : estate -> bool.
+Variable potential : estate -> nat.
+Variable G : nat.
+
+Local Notation step := enc_step.
+
+(* What the adapters rely on - the call contract of compress_stream (DESIGN C20), stated for the
+   calls the adapters make: PROCESS with input, FLUSH / FINISH without. *)
+Record contract : Prop := {
+  c_consumed : forall s o inp cap, ea_consumed (step s o inp cap) <= length inp;
+  c_produced : forall s o inp cap, length (ea_produced (step s o inp cap)) <= cap;
+  c_progress_process : forall s inp cap, 0 < cap -> inp <> [] -> ea_ok (step s Process inp cap) = true ->
+    0 < ea_consumed (step s Process inp cap) \/ ea_produced (step s Process inp cap) <> [];
+  c_progress_finish : forall s cap, 0 < cap ->
+    ea_produced (step s Finish [] cap) <> [] \/ enc_finished (ea_state (step s Finish [] cap)) = true;
+  c_progress_flush : forall s cap, 0 < cap ->
+    ea_produced (step s Flush [] cap) <> [] \/ enc_more (ea_state (step s Flush [] cap)) = false;
+  c_accept_process : forall s inp cap, accepting s = true ->
+    ea_ok (step s Process inp cap) = true /\ accepting (ea_state (step s Process inp cap)) = true;
+  c_accept_empty : forall s o cap, o <> Process -> ea_ok (step s o [] cap) = true;
+  c_live : forall s, accepting s = true -> live s = true;
+  c_flush_done : forall s cap, live s = true ->
+    enc_more (ea_state (step s Flush [] cap)) = false -> accepting (ea_state (step s Flush [] cap)) = true;
+  c_flush_keeps : forall s cap, live s = true -> live (ea_state (step s Flush [] cap)) = true;
+  c_process_no_finish : forall s inp cap, accepting s = true ->
+    enc_finished (ea_state (step s Process inp cap)) = false;
+  c_finished_absorbing : forall s cap, enc_finished s = true ->
+    ea_produced (step s Finish [] cap) = [] /\ enc_finished (ea_state (step s Finish [] cap)) = true;
+  c_no_finish_without_room : forall s o inp, enc_finished s = false ->
+    enc_finished (ea_state (step s o inp 0)) = false;
+  c_potential : forall s o inp cap,
+    potential (ea_state (step s o inp cap)) + length (ea_produced (step s o inp cap))
+    <= potential s + G * ea_consumed (step s o inp cap)
+}.
+
+Hypothesis HC : contract.
+
+Local Notation tstep := (tstep enc_step).
+
+Lemma tstep_fed (t : tenc estate) o inp cap :
+  fed (ta_enc (tstep t o inp cap)) = fed t ++ firstn (ta_consumed (tstep t o inp cap)) inp.
+Proof. unfold fed, IO.tstep. cbn. apply bytes_of_grow. Qed.
+Lemma tstep_emitted (t : tenc estate) o inp cap :
+  emitted (ta_enc (tstep t o inp cap)) = emitted t ++ ta_produced (tstep t o inp cap).
+Proof. unfold emitted, IO.tstep. cbn. apply bytes_of_grow. Qed.
+
+(* states reachable with PROCESS / FINISH only (what the reader and the copy adapter issue) *)
+Inductive ReachPF (st0 : estate) : tenc estate -> Prop :=
+| rp_init : ReachPF st0 {| t_st := st0; t_fed := []; t_out := [] |}
+| rp_step t o inp cap : ReachPF st0 t -> o <> Flush -> ReachPF st0 (ta_enc (tstep t o inp cap)).
+
+(* ------------------------------------------------------------------ reader.rs *)
+
+Definition pending (r : reader estate) : list byte :=
+  firstn (r_len r - r_off r) (skipn (r_off r) (r_buf r)).
+
+(* the state invariant of CompressorReaderCustomIo between (and inside) calls of `read` *)
+Definition RInv (st0 : estate) (r : reader estate) : Prop :=
+  0 < length (r_buf r) /\
+  r_off r <= r_len r /\ r_len r <= length (r_buf r) /\
+  (r_off r = r_len r -> r_len r < length (r_buf r)) /\
+  src_taken_bytes (r_src r) = fed (r_enc r) ++ pending r /\
+  tail_ok (src_script (r_src r)) /\
+  (accepting (t_st (r_enc r)) = true \/ (r_eof r = true /\ r_off r = r_len r)) /\
+  (enc_finished (t_st (r_enc r)) = true -> r_eof r = true /\ r_off r = r_len r) /\
+  ReachPF st0 (r_enc r).
+
+Definition read_post (st0 : estate) (r : reader estate) (cap : nat) (x : res (list byte) * reader estate) : Prop :=
+  match x with
+  | (Ok d, r') =>
+    RInv st0 r' /\ length (r_buf r') = length (r_buf r) /\ length d <= cap /\
+    emitted (r_enc r') = emitted (r_enc r) ++ d /\
+    log_errs (src_log (r_src r')) = log_errs (src_log (r_src r)) /\
+    (d = [] -> 0 < cap ->
+     enc_finished (t_st (r_enc r')) = true /\ r_eof r' = true /\ src_taken_bytes (r_src r') = fed (r_enc r'))
+  | (Err e, r') =>
+    RInv st0 r' /\ length (r_buf r') = length (r_buf r) /\ emitted (r_enc r') = emitted (r_enc r) /\
+    exists c, e = EScript c /\ log_errs (src_log (r_src r')) = c :: log_errs (src_log (r_src r))
+  | (Panic _, _) => False
+  | (OutOfFuel, _) => False
+  end.
+
+Lemma pending_length r : r_off r <= r_len r -> r_len r <= length (r_buf r) -> length (pending r) = r_len r - r_off r.
+Proof. intros H1 H2. unfold pending. rewrite firstn_length, skipn_length. lia. Qed.
+
+(* copy_to_front keeps the pending window (for any fill state, not only the empty one `read` calls it with) *)
+Lemma copy_to_front_spec r :
+  r_off r <= r_len r -> r_len r <= length (r_buf r) ->
+  exists r', copy_to_front r = Some r' /\ pending r' = pending r /\ length (r_buf r') = length (r_buf r) /\
+    r_len r' - r_off r' = r_len r - r_off r /\ r_off r' <= r_len r' /\ r_len r' <= length (r_buf r') /\
+    r_eof r' = r_eof r /\ r_ei r' = r_ei r /\ r_enc r' = r_enc r /\ r_src r' = r_src r /\
+    (r_off r = length (r_buf r) -> r_off r' = 0) /\ (r_off r <> length (r_buf r) -> r_off r' = r_off r \/ r_off r' = 0).
+Proof.
+  intros H1 H2. unfold copy_to_front.
+  destruct (Nat.ltb_spec (r_len r) (r_off r)) as [Hlt|_]; [lia|].
+  destruct (Nat.eqb_spec (r_off r) (length (r_buf r))) as [Heq|Hne].
+  - eexists. split; [reflexivity|]. unfold pending, set_buf. cbn.
+    replace (r_len r - r_off r) with 0 by lia. cbn. splits; auto; lia.
+  - destruct ((length (r_buf r) <? r_off r + IO_COPY_TO_FRONT_SLACK) && (r_len r - r_off r <? r_off r)) eqn:Hc.
+    + apply andb_true_iff in Hc. destruct Hc as [_ Hc]. apply Nat.ltb_lt in Hc.
+      eexists. split; [reflexivity|]. unfold pending, set_buf. cbn [r_buf r_off r_len r_eof r_ei r_enc r_src skipn].
+      set (a := r_len r - r_off r) in *.
+      assert (Hla : length (firstn a (skipn (r_off r) (r_buf r))) = a).
+      { rewrite firstn_length, skipn_length. lia. }
+      rewrite Nat.sub_0_r. rewrite firstn_app_exact by (symmetry; exact Hla).
+      rewrite app_length, Hla, skipn_length.
+      splits; auto; try lia.
+    + exists r. splits; auto; try lia.
+Qed.
+
+Lemma fill_staging_spec st0 (r : reader estate) avail_in :
+  RInv st0 r -> avail_in = r_len r - r_off r ->
+  match fill_staging r avail_in with
+  | (Ok avail_in1, r1) =>
+    RInv st0 r1 /\ avail_in1 = r_len r1 - r_off r1 /\ length (r_buf r1) = length (r_buf r) /\
+    r_enc r1 = r_enc r /\ log_errs (src_log (r_src r1)) = log_errs (src_log (r_src r)) /\
+    length (src_rest (r_src r1)) + avail_in1 = length (src_rest (r_src r)) + avail_in /\
+    (avail_in1 = 0 -> r_eof r1 = true)
+  | (Err e, r1) =>
+    RInv st0 r1 /\ length (r_buf r1) = length (r_buf r) /\ r_enc r1 = r_enc r /\
+    exists c, e = EScript c /\ log_errs (src_log (r_src r1)) = c :: log_errs (src_log (r_src r))
+  | (Panic _, _) => False
+  | (OutOfFuel, _) => False
+  end.
+Proof.
+  intros HI Hai.
+  destruct HI as (Hn & Hol & Hln & Hroom & Htaken & Htail & Hacc & Hfin & Hreach).
+  unfold fill_staging.
+  destruct ((r_len r <? length (r_buf r)) && negb (r_eof r)) eqn:Hc.
+  - apply andb_true_iff in Hc. destruct Hc as [Hc1 Hc2]. apply Nat.ltb_lt in Hc1.
+    apply negb_true_iff in Hc2.
+    pose proof (io_read_spec (r_src r) (length (r_buf r) - r_len r) Htail) as Hs.
+    destruct (io_read (r_src r) (length (r_buf r) - r_len r)) as [[d|e|] s']; [| |contradiction].
+    + destruct Hs as (Hd & Hrest & Htk & Htl & Hle).
+      destruct (Nat.eqb_spec (length d) 0) as [Hd0|Hd0].
+      * destruct d; [|cbn in Hd0; lia]. rewrite app_nil_r in Htk. cbn [app] in Hrest.
+        cbn [r_buf r_off r_len r_eof r_enc r_src].
+        split.
+        { unfold RInv, pending. cbn [r_buf r_off r_len r_eof r_enc r_src].
+          splits; auto; try lia.
+          - rewrite Htk. exact Htaken.
+          - destruct Hacc as [Ha|[Ha _]]; [left; exact Ha|congruence].
+          - intros Hx. destruct (Hfin Hx) as [Ha _]. congruence. }
+        splits; auto. rewrite Hrest. reflexivity.
+      * cbn zeta. cbn [r_len r_off].
+        destruct (Nat.ltb_spec (r_len r + length d) (r_off r)) as [Hx|_]; [lia|].
+        cbn [r_buf r_off r_len r_eof r_enc r_src].
+        assert (Hwl : length (write_at (r_buf r) (r_len r) d) = length (r_buf r)) by (apply write_at_length; lia).
+        split.
+        { unfold RInv, pending. cbn [r_buf r_off r_len r_eof r_enc r_src].
+          rewrite Hwl. splits; auto; try lia.
+          - rewrite Htk, Htaken, <- app_assoc. f_equal. symmetry.
+            apply window_then_write; lia.
+          - destruct Hacc as [Ha|[Ha _]]; [left; exact Ha|congruence].
+          - intros Hx. destruct (Hfin Hx) as [Ha _]. congruence. }
+        splits; auto; try lia.
+        rewrite Hrest, app_length. lia.
+    + destruct Hs as (Hrest & Htk & Htl & Hle).
+      cbn [r_buf r_off r_len r_eof r_enc r_src]. split; [|splits; auto; exists e; auto].
+      unfold RInv, pending in *. cbn [r_buf r_off r_len r_eof r_enc r_src].
+      splits; auto. rewrite Htk. exact Htaken.
+  - split; [unfold RInv; splits; auto|].
+    splits; auto.
+    intros Ha0. apply andb_false_iff in Hc. destruct Hc as [Hc|Hc].
+    + apply Nat.ltb_ge in Hc. assert (r_off r = r_len r) by lia. specialize (Hroom H). lia.
+    + apply negb_false_iff in Hc. exact Hc.
+Qed.
+
+Definition plain_source (s : source) : Prop := s_list (src_script s) = [] /\ s_tail (src_script s) = Full.
+
+Lemma io_read_plain s room :
+  plain_source s -> exists d s', io_read s room = (RGot d, s') /\ plain_source s'.
+Proof.
+  intros [H1 H2]. unfold io_read. rewrite H1, H2. cbn [io_read_go].
+  eexists. eexists. split; [reflexivity|]. split; reflexivity.
+Qed.
+
+Lemma fill_staging_plain (r : reader estate) ai :
+  plain_source (r_src r) ->
+  match fill_staging r ai with (Err _, _) => False | (_, r1) => plain_source (r_src r1) end.
+Proof.
+  intros Hp. unfold fill_staging.
+  destruct ((r_len r <? length (r_buf r)) && negb (r_eof r)); [|exact Hp].
+  destruct (io_read_plain (r_src r) (length (r_buf r) - r_len r) Hp) as (d & s' & E & Hp'). rewrite E.
+  destruct (length d =? 0); [exact Hp'|]. cbn zeta.
+  match goal with |- context [if ?c then _ else _] => destruct c end; exact Hp'.
+Qed.
+
+(* one evaluation of the loop condition plus one execution of the loop body *)
+Lemma read_iter st0 cap f (r : reader estate) avail_in :
+  RInv st0 r -> avail_in = r_len r - r_off r ->
+  (exists e r1 c, read_loop enc_step enc_finished (S f) r avail_in cap [] = (Err e, r1) /\
+      RInv st0 r1 /\ length (r_buf r1) = length (r_buf r) /\ r_enc r1 = r_enc r /\ e = EScript c /\
+      log_errs (src_log (r_src r1)) = c :: log_errs (src_log (r_src r)) /\ ~ plain_source (r_src r))
+  \/
+  (exists r3 p ai2 consumed,
+      read_loop enc_step enc_finished (S f) r avail_in cap [] =
+        (if enc_finished (t_st (r_enc r3)) then (Ok p, r3)
+         else read_loop enc_step enc_finished f r3 ai2 (cap - length p) p) /\
+      RInv st0 r3 /\ length (r_buf r3) = length (r_buf r) /\ length p <= cap /\
+      emitted (r_enc r3) = emitted (r_enc r) ++ p /\
+      log_errs (src_log (r_src r3)) = log_errs (src_log (r_src r)) /\
+      ai2 = r_len r3 - r_off r3 /\
+      length (src_rest (r_src r3)) + ai2 + consumed = length (src_rest (r_src r)) + avail_in /\
+      (0 < cap -> p = [] -> enc_finished (t_st (r_enc r3)) = false -> 0 < consumed) /\
+      (enc_finished (t_st (r_enc r3)) = true -> r_eof r3 = true /\ src_taken_bytes (r_src r3) = fed (r_enc r3)) /\
+      (cap = 0 -> enc_finished (t_st (r_enc r)) = false -> enc_finished (t_st (r_enc r3)) = false) /\
+      (plain_source (r_src r) -> plain_source (r_src r3))).
+Proof.
+  intros HI Hai.
+  cbn [read_loop length Nat.eqb negb].
+  pose proof (fill_staging_spec st0 r avail_in HI Hai) as Hfill.
+  pose proof (fill_staging_plain r avail_in) as Hplain.
+  destruct HI as (Hn & Hol & Hln & Hroom & Htaken & Htail & Hacc & Hfin & Hreach).
+  destruct (fill_staging r avail_in) as [[avail_in1|e|y|] r1]; try contradiction.
+  2:{ (* the wrapped reader failed: the error is returned unchanged *)
+    destruct Hfill as (HI1 & Hl1 & He1 & c & Hc1 & Hc2).
+    left. exists e, r1, c. splits; auto.
+    all: intros Hpl; specialize (Hplain Hpl); exact Hplain. }
+  destruct Hfill as (HI1 & Hai1 & Hlen1 & Henc1 & Hlog1 & Hmeas & Heof1).
+   destruct HI1 as (Hn1 & Hol1 & Hln1 & Hroom1 & Htaken1 & Htail1 & Hacc1 & Hfin1 & Hreach1).
+  (* ---- one compress_stream call *)
+  set (o := if avail_in1 =? 0 then Finish else Process).
+  set (inp := firstn avail_in1 (skipn (r_off r1) (r_buf r1))).
+  assert (Hinp : inp = pending r1) by (unfold inp, pending; rewrite Hai1; reflexivity).
+  assert (Hinpl : length inp = avail_in1).
+  { rewrite Hinp, pending_length by assumption. lia. }
+  set (a := tstep (r_enc r1) o inp cap).
+  assert (Hc : ta_consumed a <= avail_in1).
+  { unfold a, IO.tstep. cbn [ta_consumed]. rewrite <- Hinpl. apply (c_consumed HC). }
+  assert (Hp : length (ta_produced a) <= cap).
+  { unfold a, IO.tstep. cbn [ta_produced]. apply (c_produced HC). }
+  cbn [app].
+  set (r2 := {| r_buf := r_buf r1; r_off := r_off r1 + ta_consumed a; r_len := r_len r1; r_eof := r_eof r1;
+                r_ei := r_ei r1; r_enc := ta_enc a; r_src := r_src r1 |}).
+  assert (Hpend2 : pending r1 = firstn (ta_consumed a) inp ++ pending r2).
+  { unfold pending. unfold r2. cbn [r_buf r_off r_len].
+    replace (r_len r1 - r_off r1) with (ta_consumed a + (r_len r1 - (r_off r1 + ta_consumed a))) by lia.
+    rewrite window_split. f_equal. unfold inp.
+    rewrite firstn_firstn, Nat.min_l by lia. reflexivity. }
+  assert (Htaken2 : src_taken_bytes (r_src r2) = fed (r_enc r2) ++ pending r2).
+  { unfold r2 at 1 2. cbn [r_src r_enc]. unfold a. rewrite tstep_fed. fold a.
+    rewrite <- app_assoc, <- Hpend2. exact Htaken1. }
+  (* ok, accepting, finished *)
+  assert (Hok : ta_ok a = true /\
+                (accepting (t_st (ta_enc a)) = true \/ (r_eof r1 = true /\ avail_in1 = 0)) /\
+                (enc_finished (t_st (ta_enc a)) = true -> r_eof r1 = true /\ avail_in1 = 0)).
+  { unfold a, o, IO.tstep. cbn [ta_ok ta_enc t_st].
+    destruct (Nat.eqb_spec avail_in1 0) as [H0|H0].
+    - assert (inp = []) by (destruct inp; [reflexivity|cbn in Hinpl; lia]). rewrite H.
+      split; [apply (c_accept_empty HC); discriminate|]. split; [right|]; auto.
+    - assert (Ha : accepting (t_st (r_enc r1)) = true).
+      { destruct Hacc1 as [Ha|[_ Ha]]; [exact Ha|lia]. }
+      destruct (c_accept_process HC (t_st (r_enc r1)) inp cap Ha) as [Ho Ha'].
+      split; [exact Ho|]. split; [left; exact Ha'|].
+      intros Hx. exfalso.
+      rewrite (c_process_no_finish HC _ inp cap Ha) in Hx. discriminate. }
+  destruct Hok as (Hok & Hacc2 & Hfin2).
+  (* ---- copy_to_front when the staging buffer is drained *)
+  assert (Hctf : exists r3,
+     (if avail_in1 - ta_consumed a =? 0 then copy_to_front r2 else Some r2) = Some r3 /\
+     pending r3 = pending r2 /\ length (r_buf r3) = length (r_buf r1) /\
+     r_len r3 - r_off r3 = avail_in1 - ta_consumed a /\ r_off r3 <= r_len r3 /\ r_len r3 <= length (r_buf r3) /\
+     r_eof r3 = r_eof r1 /\ r_ei r3 = r_ei r1 /\ r_enc r3 = ta_enc a /\ r_src r3 = r_src r1 /\
+     (r_off r3 = r_len r3 -> r_len r3 < length (r_buf r3))).
+  { destruct (Nat.eqb_spec (avail_in1 - ta_consumed a) 0) as [H0|H0].
+    - destruct (copy_to_front_spec r2) as (r3 & E & P & L & D & O1 & O2 & E1 & E2 & E3 & E4 & Z1 & Z2);
+        [unfold r2; cbn [r_off r_len r_buf]; lia|unfold r2; cbn [r_off r_len r_buf]; lia|].
+      exists r3. split; [exact E|]. unfold r2 in L, D, E1, E2, E3, E4, Z1, Z2. cbn [r_buf r_off r_len r_eof r_ei r_enc r_src] in *.
+      splits; auto; try lia.
+      all: intros Hx; rewrite L;
+        destruct (Nat.eq_dec (r_off r1 + ta_consumed a) (length (r_buf r1))) as [Hy|Hy];
+        [specialize (Z1 Hy); lia|destruct (Z2 Hy) as [Hz|Hz]; lia].
+    - exists r2. split; [reflexivity|]. unfold r2. cbn [r_buf r_off r_len r_eof r_ei r_enc r_src].
+      splits; auto; lia. }
+  destruct Hctf as (r3 & Ectf & P3 & L3 & D3 & O3a & O3b & E3a & E3b & E3c & E3d & Room3).
+  rewrite Ectf. rewrite Hok. cbn [negb].
+  assert (HI3 : RInv st0 r3).
+  { unfold RInv. rewrite E3c, E3d, E3a, P3.
+    split; [lia|]. split; [exact O3a|]. split; [exact O3b|]. split; [exact Room3|].
+    split; [unfold r2 in Htaken2; cbn [r_src r_enc] in Htaken2; exact Htaken2|].
+    split; [exact Htail1|].
+    split; [destruct Hacc2 as [Ha|[Ha Hb]]; [left; exact Ha|right; split; [exact Ha|lia]]|].
+    split; [intros Hx; destruct (Hfin2 Hx) as [Ha Hb]; split; [exact Ha|lia]|].
+    unfold a. apply rp_step; [exact Hreach1|]. unfold o. destruct (avail_in1 =? 0); discriminate. }
+  assert (Hem3 : emitted (r_enc r3) = emitted (r_enc r) ++ ta_produced a).
+  { rewrite E3c. unfold a. rewrite tstep_emitted, Henc1. reflexivity. }
+  assert (Hlog3 : log_errs (src_log (r_src r3)) = log_errs (src_log (r_src r))) by (rewrite E3d; exact Hlog1).
+  right. exists r3, (ta_produced a), (avail_in1 - ta_consumed a), (ta_consumed a).
+  split.
+  { rewrite E3c. cbn [t_st app]. reflexivity. }
+  split; [exact HI3|]. split; [congruence|]. split; [exact Hp|]. split; [exact Hem3|]. split; [exact Hlog3|].
+  split; [lia|]. split; [rewrite E3d; lia|].
+  split.
+  { intros Hcap Hprod Hnf. rewrite E3c in Hnf.
+    unfold a, o in *. destruct (Nat.eqb_spec avail_in1 0) as [H0|H0].
+    - exfalso. assert (Hi0 : inp = []) by (destruct inp; [reflexivity|cbn in Hinpl; lia]).
+      unfold IO.tstep in Hprod, Hnf. cbn [ta_produced ta_enc t_st] in Hprod, Hnf. rewrite Hi0 in *.
+      destruct (c_progress_finish HC (t_st (r_enc r1)) cap Hcap) as [Hx|Hx]; congruence.
+    - unfold IO.tstep in Hprod, Hok |- *. cbn [ta_produced ta_ok ta_consumed] in *.
+      assert (Hine : inp <> []) by (intros Hx; rewrite Hx in Hinpl; cbn in Hinpl; lia).
+      destruct (c_progress_process HC (t_st (r_enc r1)) inp cap Hcap Hine Hok) as [Hx|Hx]; [exact Hx|congruence]. }
+  split.
+  { rewrite E3c. intros Hfinished. destruct (Hfin2 Hfinished) as [Ha Hb]. split; [rewrite E3a; exact Ha|].
+    assert (Hp3 : pending r3 = []).
+    { unfold pending. replace (r_len r3 - r_off r3) with 0 by lia. reflexivity. }
+    destruct HI3 as (_ & _ & _ & _ & Ht3 & _). rewrite Ht3, Hp3, app_nil_r, E3c. reflexivity. }
+  split.
+  { intros Hc0 Hnf. rewrite E3c. unfold a, IO.tstep. cbn [ta_enc t_st]. subst cap.
+    apply (c_no_finish_without_room HC). rewrite Henc1. exact Hnf. }
+  intros Hpl. rewrite E3d. specialize (Hplain Hpl). exact Hplain.
+Qed.
+
+Lemma read_loop_nonempty f (r : reader estate) ai ao outp :
+  outp <> [] -> read_loop enc_step enc_finished (S f) r ai ao outp = (Ok outp, r).
+Proof. intros H. cbn [read_loop]. destruct outp; [congruence|]. reflexivity. Qed.
+
+Lemma read_loop_spec st0 cap : 0 < cap -> forall fuel (r : reader estate) avail_in,
+  RInv st0 r -> avail_in = r_len r - r_off r ->
+  length (src_rest (r_src r)) + avail_in + 2 <= fuel ->
+  read_post st0 r cap (read_loop enc_step enc_finished fuel r avail_in cap []).
+Proof.
+  intros Hcap. induction fuel as [|f IH]; intros r avail_in HI Hai Hf; [lia|].
+  destruct (read_iter st0 cap f r avail_in HI Hai)
+    as [(e & r1 & c & E & HI1 & L1 & En1 & Ee & Lg & _)
+       |(r3 & p & ai2 & consumed & E & HI3 & L3 & Hp & Hem & Hlog & Hai2 & Hmeas & Hprog & Hfin & _ & _)];
+    rewrite E; clear E.
+  - cbn [read_post]. splits; auto; try congruence. exists c. auto.
+  - destruct (enc_finished (t_st (r_enc r3))) eqn:Hfinished.
+    + cbn [read_post]. splits; auto. all: intros _ _; destruct (Hfin eq_refl); auto.
+    + destruct p as [|p0 ps].
+      * cbn [length]. rewrite Nat.sub_0_r.
+        specialize (Hprog Hcap eq_refl eq_refl).
+        assert (Hfuel : length (src_rest (r_src r3)) + ai2 + 2 <= f) by lia.
+        specialize (IH r3 ai2 HI3 Hai2 Hfuel). unfold read_post in IH |- *.
+        destruct (read_loop enc_step enc_finished f r3 ai2 cap []) as [[d|e|y|] r']; try contradiction.
+        -- destruct IH as (I & L & Dl & Em & Lg & Fin). rewrite Hem, app_nil_r in Em.
+           splits; auto; try congruence.
+        -- destruct IH as (I & L & Em & c & Ec & Lg). rewrite Hem, app_nil_r in Em.
+           splits; auto; try congruence. exists c. split; [exact Ec|congruence].
+      * destruct f as [|f']; [lia|].
+        rewrite read_loop_nonempty by discriminate.
+        cbn [read_post]. splits; auto. all: intros Hx; discriminate.
+Qed.
+
+(* C11_reader: a read into a non-empty buffer returns within |unread source| + |staged| + 2
+   evaluations of the loop condition; what it delivers is exactly what the encoder produced; an
+   error of the wrapped reader is returned unchanged (and nothing is lost: the state invariant
+   still holds, so the call can be repeated); Ok(0) means the encoder is finished and has been fed
+   every byte the wrapped reader delivered before it signalled end of input. *)
+Definition read_fuel (r : reader estate) : nat := length (src_rest (r_src r)) + (r_len r - r_off r) + 2.
+
+Lemma read_spec st0 (r : reader estate) buf_len fuel :
+  RInv st0 r -> 0 < buf_len -> read_fuel r <= fuel ->
+  read_post st0 r buf_len (read enc_step enc_finished fuel r buf_len).
+Proof.
+  intros HI Hb Hf. unfold read, read_unguarded.
+  destruct (Nat.eqb_spec buf_len 0) as [H0|_]; [lia|]. rewrite andb_false_r.
+  destruct HI as (Hn & Hol & HI'). destruct (Nat.ltb_spec (r_len r) (r_off r)) as [Hx|_]; [lia|].
+  apply read_loop_spec; auto. unfold RInv. auto.
+Qed.
+
+(* C11_reader_empty (repaired code): a read into an empty buffer returns Ok(0) at once and
+   changes nothing *)
+Lemma read_empty (r : reader estate) fuel : read enc_step enc_finished fuel r 0 = (Ok [], r).
+Proof. reflexivity. Qed.
+
+(* ... and why the guard is needed: the loop as it stood before repair 3fdd175 (and still stands,
+   behind the guard) never returns for an empty buffer while the encoder is not finished - the
+   encoder cannot deliver into no space, so `output_offset` stays 0, and it cannot finish either. *)
+Lemma read_loop_no_room_spins st0 : forall fuel (r : reader estate) avail_in,
+  RInv st0 r -> avail_in = r_len r - r_off r -> plain_source (r_src r) ->
+  enc_finished (t_st (r_enc r)) = false ->
+  fst (read_loop enc_step enc_finished fuel r avail_in 0 []) = OutOfFuel.
+Proof.
+  induction fuel as [|f IH]; intros r avail_in HI Hai Hpl Hnf; [reflexivity|].
+  destruct (read_iter st0 0 f r avail_in HI Hai)
+    as [(e & r1 & c & E & _ & _ & _ & _ & _ & Hnp)
+       |(r3 & p & ai2 & consumed & E & HI3 & _ & Hp & _ & _ & Hai2 & _ & _ & _ & Hnf3 & Hpl3)].
+  - contradiction.
+  - rewrite E. rewrite (Hnf3 eq_refl Hnf).
+    destruct p; [|cbn in Hp; lia]. cbn [length Nat.sub].
+    apply IH; auto.
+Qed.
+
+Lemma read_unguarded_spins st0 (r : reader estate) :
+  RInv st0 r -> plain_source (r_src r) -> enc_finished (t_st (r_enc r)) = false ->
+  forall fuel, fst (read_unguarded enc_step enc_finished fuel r 0) = OutOfFuel.
+Proof.
+  intros HI Hpl Hnf fuel. unfold read_unguarded.
+  pose proof HI as (_ & Hol & _). destruct (Nat.ltb_spec (r_len r) (r_off r)) as [Hx|_]; [lia|].
+  apply (read_loop_no_room_spins st0); auto.
+Qed.
+
+(* ------------------------------------------------------------------ writer.rs *)
+
+Definition zeros (w : writer estate) : nat := log_zero_writes (k_log (w_sink w)).
+Definition errs (w : writer estate) : list N := log_errs (k_log (w_sink w)).
+
+(* the hand-over of one compress_stream answer to the sink *)
+Definition hand_over_post (w : writer estate) (a : tans estate) (x : option (res unit) * writer estate) : Prop :=
+  let (ro, w') := x in
+  w_obuf w' = w_obuf w /\ w_enc w' = ta_enc a /\ tail_ok (k_script (w_sink w')) /\
+  match ro with
+  | None =>
+    ta_ok a = true /\ errs w' = errs w /\
+    ((sink_bytes (w_sink w') = sink_bytes (w_sink w) ++ ta_produced a /\ zeros w' = zeros w /\
+      w_ez w' = w_ez w /\ w_ei w' = w_ei w)
+     \/ (w_ez w = false /\ w_ei w = false /\ zeros w' = S (zeros w) /\ w_ez w' = false /\ w_ei w' = false))
+  | Some (Err e) =>
+    (exists c, e = EScript c /\ errs w' = c :: errs w /\ zeros w' = zeros w)
+    \/ (errs w' = errs w /\ zeros w' = S (zeros w) /\
+        ((e = EWriteZero /\ w_ez w = true) \/ (e = EInvalidData /\ w_ez w = false /\ w_ei w = true)))
+    \/ (ta_ok a = false /\ e = EInvalidData /\ errs w' = errs w /\ zeros w' = zeros w)
+  | Some (Panic _) => ta_ok a = false /\ w_ei w = false
+  | Some (Ok _) => False
+  | Some OutOfFuel => False
+  end.
+
+Lemma hand_over_spec (w : writer estate) (a : tans estate) :
+  tail_ok (k_script (w_sink w)) -> hand_over_post w a (hand_over w a).
+Proof.
+  intros Ht. unfold hand_over, hand_over_post, zeros, errs.
+  destruct (Nat.eqb_spec (length (ta_produced a)) 0) as [Hp0|Hp0].
+  - cbn [w_obuf w_enc w_ei w_ez w_sink].
+    assert (Hpn : ta_produced a = []) by (destruct (ta_produced a); [reflexivity|cbn in Hp0; lia]).
+    destruct (ta_ok a) eqn:Hok; cbn [negb].
+    + splits; auto. left. rewrite Hpn, app_nil_r. auto.
+    + destruct (w_ei w) eqn:Hei; cbn [w_obuf w_enc w_ei w_ez w_sink]; splits; auto.
+      right. right. auto.
+  - cbn [w_obuf w_enc w_ei w_ez w_sink].
+    pose proof (write_all_spec (S (length (ta_produced a))) (w_sink w) (ta_produced a) (w_ez w) (w_ei w) Ht (Nat.lt_succ_diag_r _)) as Hwa.
+    destruct Hwa as (m & Hm & Hb & Ht' & Hres).
+    set (o := write_all (S (length (ta_produced a))) (w_sink w) (ta_produced a) (w_ez w) (w_ei w)) in *.
+    destruct (wa_res o) as [u|e|y|] eqn:Hr; try contradiction; cbn [w_obuf w_enc w_ei w_ez w_sink].
+    + destruct Hres as (He & Hcase).
+      destruct (ta_ok a) eqn:Hok; cbn [negb].
+      * splits; auto.
+        destruct Hcase as [(H1 & H2 & H3 & H4)|(H1 & H2 & H3 & H4 & H5 & H6)].
+        -- left. subst m. rewrite firstn_all in Hb. auto.
+        -- right. auto.
+      * destruct (wa_ei o) eqn:Hei; cbn [w_obuf w_enc w_ei w_ez w_sink].
+        -- splits; auto.
+           destruct Hcase as [(H1 & H2 & H3 & H4)|(H1 & H2 & H3 & H4 & H5 & H6)]; [|congruence].
+           right. right. auto.
+        -- splits; auto.
+           destruct Hcase as [(H1 & H2 & H3 & H4)|(H1 & H2 & _)]; congruence.
+    + splits; auto.
+      destruct Hres as [(c & H1 & H2 & H3 & H4 & H5)|(H1 & H2 & H3 & [(H4 & H5 & H6 & H7)|(H4 & H5 & H6 & H7 & H8)])].
+      * left. exists c. auto.
+      * right. left. splits; auto.
+      * right. left. splits; auto.
+Qed.
+
+(* what the encoder alone does during `write` / `flush_or_close`: no sink in sight *)
+Fixpoint ref_write (obuf fuel : nat) (t : tenc estate) (rest : list byte) : tenc estate :=
+  match fuel with
+  | O => t
+  | S f => if length rest =? 0 then t else
+           let a := tstep t Process rest obuf in ref_write obuf f (ta_enc a) (skipn (ta_consumed a) rest)
+  end.
+Fixpoint ref_flush (obuf fuel : nat) (t : tenc estate) (o : op) : tenc estate :=
+  match fuel with
+  | O => t
+  | S f => let a := tstep t o [] obuf in
+           match o with
+           | Flush => if enc_more (t_st (ta_enc a)) then ref_flush obuf f (ta_enc a) o else ta_enc a
+           | _ => if enc_finished (t_st (ta_enc a)) then ta_enc a else ref_flush obuf f (ta_enc a) o
+           end
+  end.
+
+(* how the sink-side bookkeeping of a writer relates to where the call started:
+   either nothing irregular happened (and then the sink holds exactly what it held plus what the
+   encoder produced since), or a zero-length write was swallowed because both stored errors were
+   already gone - the known class [stored errors exhausted] *)
+Definition sink_track (w0 w : writer estate) : Prop :=
+  errs w = errs w0 /\
+  ((exists d, sink_bytes (w_sink w) = sink_bytes (w_sink w0) ++ d /\ emitted (w_enc w) = emitted (w_enc w0) ++ d) /\
+   zeros w = zeros w0 /\ w_ez w = w_ez w0 /\ w_ei w = w_ei w0
+   \/ (w_ez w0 = false /\ w_ei w0 = false /\ zeros w0 < zeros w /\ w_ez w = false /\ w_ei w = false)).
+
+Lemma sink_track_refl w : sink_track w w.
+Proof. split; [reflexivity|]. left. split; [exists []; rewrite !app_nil_r; auto|auto]. Qed.
+
+Lemma sink_track_step (w0 w w' : writer estate) (p : list byte) :
+  sink_track w0 w ->
+  emitted (w_enc w') = emitted (w_enc w) ++ p ->
+  errs w' = errs w ->
+  ((sink_bytes (w_sink w') = sink_bytes (w_sink w) ++ p /\ zeros w' = zeros w /\
+    w_ez w' = w_ez w /\ w_ei w' = w_ei w)
+   \/ (w_ez w = false /\ w_ei w = false /\ zeros w' = S (zeros w) /\ w_ez w' = false /\ w_ei w' = false)) ->
+  sink_track w0 w'.
+Proof.
+  intros [He Hc] Hem He' Hcase. split; [congruence|].
+  destruct Hc as [((d & Hs & Hm) & Hz & Hez & Hei)|(H1 & H2 & H3 & H4 & H5)].
+  - destruct Hcase as [(Hs' & Hz' & Hez' & Hei')|(G1 & G2 & G3 & G4 & G5)].
+    + left. split; [|splits; congruence].
+      exists (d ++ p). rewrite Hs', Hs, Hem, Hm, !app_assoc. auto.
+    + right. splits; try congruence. lia.
+  - right. splits; auto.
+    + destruct Hcase as [(Hs' & Hz' & Hez' & Hei')|(G1 & G2 & G3 & G4 & G5)]; lia.
+    + destruct Hcase as [(Hs' & Hz' & Hez' & Hei')|(G1 & G2 & G3 & G4 & G5)]; congruence.
+    + destruct Hcase as [(Hs' & Hz' & Hez' & Hei')|(G1 & G2 & G3 & G4 & G5)]; congruence.
+Qed.
+
+Lemma zeros_mono_track w0 w : sink_track w0 w -> zeros w0 <= zeros w.
+Proof. intros [_ [(_ & H & _)|(_ & _ & H & _)]]; lia. Qed.
+
+(* how an adapter call may report a fault of the sink: with the sink's own error, unchanged, or
+   with a stored error standing for a zero-length write *)
+Definition err_reported (w0 w' : writer estate) (e : ioerr) : Prop :=
+  (exists c, e = EScript c /\ errs w' = c :: errs w0 /\ zeros w0 <= zeros w')
+  \/ (errs w' = errs w0 /\ zeros w0 < zeros w' /\ (e = EWriteZero \/ e = EInvalidData)).
+
+Definition write_loop_post (w0 w : writer estate) (rest : list byte) (fuel : nat)
+  (x : res unit * writer estate) : Prop :=
+  match x with
+  | (Ok _, w') =>
+    sink_track w0 w' /\ w_obuf w' = w_obuf w /\ tail_ok (k_script (w_sink w')) /\
+    fed (w_enc w') = fed (w_enc w) ++ rest /\ accepting (t_st (w_enc w')) = true /\
+    w_enc w' = ref_write (w_obuf w) fuel (w_enc w) rest /\
+    potential (t_st (w_enc w')) <= potential (t_st (w_enc w)) + G * length rest
+  | (Err e, w') => err_reported w0 w' e
+  | (Panic _, _) => False
+  | (OutOfFuel, _) => False
+  end.
+
+Lemma write_loop_spec (w0 : writer estate) : forall fuel (w : writer estate) rest,
+  sink_track w0 w -> tail_ok (k_script (w_sink w)) -> 0 < w_obuf w ->
+  accepting (t_st (w_enc w)) = true ->
+  potential (t_st (w_enc w)) + (G + 1) * length rest + 1 <= fuel ->
+  write_loop_post w0 w rest fuel (write_loop enc_step fuel w rest).
+Proof.
+  induction fuel as [|f IH]; intros w rest Htr Ht Hob Hacc Hf; [lia|].
+  cbn [write_loop ref_write].
+  destruct (Nat.eqb_spec (length rest) 0) as [Hr0|Hr0].
+  - cbn [write_loop_post].
+    assert (rest = []) by (destruct rest; [reflexivity|cbn in Hr0; lia]). subst rest.
+    rewrite app_nil_r. splits; auto. lia.
+  - set (a := tstep (w_enc w) Process rest (w_obuf w)).
+    pose proof (hand_over_spec w a Ht) as Hh.
+    destruct (c_accept_process HC (t_st (w_enc w)) rest (w_obuf w) Hacc) as [Hok Hacc'].
+    assert (Hoka : ta_ok a = true) by exact Hok.
+    assert (Hc : ta_consumed a <= length rest) by (apply (c_consumed HC)).
+    assert (Hpot : potential (t_st (ta_enc a)) + length (ta_produced a) <= potential (t_st (w_enc w)) + G * ta_consumed a)
+      by (apply (c_potential HC)).
+    assert (Hne : rest <> []) by (intros Hx; subst rest; cbn in Hr0; lia).
+    assert (Hprog : 0 < ta_consumed a \/ ta_produced a <> []) by (apply (c_progress_process HC); auto).
+    destruct (hand_over w a) as [[r|] w'].
+    + destruct Hh as (Ho & He & Ht' & Hh).
+      destruct r as [u|e|y|]; try contradiction; [|destruct Hh; congruence].
+      cbn [write_loop_post]. destruct Htr as [Hes Htr].
+      destruct Hh as [(c & H1 & H2 & H3)|[(H1 & H2 & H3)|(H1 & _)]]; [| |congruence].
+      * left. exists c. splits; auto; try congruence.
+        pose proof (zeros_mono_track w0 w (conj Hes Htr)). lia.
+      * right. pose proof (zeros_mono_track w0 w (conj Hes Htr)). splits; try congruence; try lia.
+        destruct H3 as [[H3 _]|[H3 _]]; auto.
+    + destruct Hh as (Ho & He & Ht' & _ & Hes & Hcase).
+      assert (Htr' : sink_track w0 w').
+      { apply (sink_track_step w0 w w' (ta_produced a)); auto.
+        rewrite He. apply tstep_emitted. }
+      assert (Hfuel : potential (t_st (w_enc w')) + (G + 1) * length (skipn (ta_consumed a) rest) + 1 <= f).
+      { rewrite He, skipn_length.
+        assert (length (ta_produced a) = 0 -> ta_produced a = []) by (destruct (ta_produced a); [auto|discriminate]).
+        assert (0 < ta_consumed a \/ 0 < length (ta_produced a)) by (destruct Hprog; [auto|right; destruct (ta_produced a); [congruence|cbn; lia]]).
+        nia. }
+      assert (Hacc2 : accepting (t_st (w_enc w')) = true) by (rewrite He; exact Hacc').
+      specialize (IH w' (skipn (ta_consumed a) rest) Htr' Ht' ltac:(lia) Hacc2 Hfuel).
+      unfold write_loop_post in IH |- *.
+      destruct (write_loop enc_step f w' (skipn (ta_consumed a) rest)) as [[u|e|y|] w'']; try contradiction; [|exact IH].
+      destruct IH as (I1 & I2 & I3 & I4 & I5 & I6 & I7).
+      splits; auto; try congruence.
+      * rewrite I4, He. unfold a at 1. rewrite tstep_fed. fold a. rewrite <- app_assoc. f_equal.
+        apply firstn_skipn.
+      * cbn [ref_write]. destruct (Nat.eqb_spec (length rest) 0) as [Hx|_]; [lia|]. fold a.
+        rewrite I6, Ho, He. reflexivity.
+      * rewrite He, skipn_length in I7. nia.
+Qed.
+
+(* termination of `write` does not depend on the encoder accepting input: a refused call ends it *)
+Lemma write_loop_returns : forall fuel (w : writer estate) rest,
+  tail_ok (k_script (w_sink w)) -> 0 < w_obuf w ->
+  potential (t_st (w_enc w)) + (G + 1) * length rest + 1 <= fuel ->
+  fst (write_loop enc_step fuel w rest) <> OutOfFuel.
+Proof.
+  induction fuel as [|f IH]; intros w rest Ht Hob Hf; [lia|].
+  cbn [write_loop].
+  destruct (Nat.eqb_spec (length rest) 0) as [Hr0|Hr0]; [cbn; discriminate|].
+  set (a := tstep (w_enc w) Process rest (w_obuf w)).
+  pose proof (hand_over_spec w a Ht) as Hh.
+  destruct (hand_over w a) as [[r|] w'].
+  - destruct Hh as (_ & _ & _ & Hh). destruct r; cbn; try discriminate. contradiction.
+  - destruct Hh as (Ho & He & Ht' & Hok & _).
+    assert (Hc : ta_consumed a <= length rest) by (apply (c_consumed HC)).
+    assert (Hpot : potential (t_st (ta_enc a)) + length (ta_produced a) <= potential (t_st (w_enc w)) + G * ta_consumed a)
+      by (apply (c_potential HC)).
+    assert (Hne : rest <> []) by (intros Hx; subst rest; cbn in Hr0; lia).
+    assert (Hprog : 0 < ta_consumed a \/ ta_produced a <> []) by (apply (c_progress_process HC); auto).
+    apply IH; auto; try lia.
+    rewrite He, skipn_length.
+    assert (0 < ta_consumed a \/ 0 < length (ta_produced a)) by (destruct Hprog; [auto|right; destruct (ta_produced a); [congruence|cbn; lia]]).
+    nia.
+Qed.
+
+Definition may_accept (s : estate) : Prop := live s = true.
+
+Definition flush_post (w0 w : writer estate) (o : op) (fuel : nat) (x : res unit * writer estate) : Prop :=
+  match x with
+  | (Ok _, w') =>
+    sink_track w0 w' /\ w_obuf w' = w_obuf w /\ tail_ok (k_script (w_sink w')) /\
+    fed (w_enc w') = fed (w_enc w) /\
+    (o = Flush -> enc_more (t_st (w_enc w')) = false /\
+                  (may_accept (t_st (w_enc w)) -> accepting (t_st (w_enc w')) = true)) /\
+    (o = Finish -> enc_finished (t_st (w_enc w')) = true) /\
+    w_enc w' = ref_flush (w_obuf w) fuel (w_enc w) o /\
+    potential (t_st (w_enc w')) <= potential (t_st (w_enc w))
+  | (Err e, w') => err_reported w0 w' e
+  | (Panic _, _) => False
+  | (OutOfFuel, _) => False
+  end.
+
+Lemma flush_or_close_spec (w0 : writer estate) (o : op) : o <> Process ->
+  forall fuel (w : writer estate),
+  sink_track w0 w -> tail_ok (k_script (w_sink w)) -> 0 < w_obuf w ->
+  potential (t_st (w_enc w)) + 1 <= fuel ->
+  flush_post w0 w o fuel (flush_or_close enc_step enc_finished enc_more fuel w o).
+Proof.
+  intros Hop. induction fuel as [|f IH]; intros w Htr Ht Hob Hf; [lia|].
+  cbn [flush_or_close]. unfold flush_post. cbn [ref_flush].
+  set (a := tstep (w_enc w) o [] (w_obuf w)).
+  pose proof (hand_over_spec w a Ht) as Hh.
+  assert (Hoka : ta_ok a = true) by (apply (c_accept_empty HC); exact Hop).
+  assert (Hc : ta_consumed a = 0).
+  { pose proof (c_consumed HC (t_st (w_enc w)) o [] (w_obuf w)) as H. cbn in H. unfold a, IO.tstep. cbn [ta_consumed]. lia. }
+  assert (Hpot : potential (t_st (ta_enc a)) + length (ta_produced a) <= potential (t_st (w_enc w))).
+  { pose proof (c_potential HC (t_st (w_enc w)) o [] (w_obuf w)) as H.
+    unfold a, IO.tstep in Hc |- *. cbn [ta_consumed ta_enc t_st ta_produced] in *. rewrite Hc in H. lia. }
+  assert (Hfed : fed (ta_enc a) = fed (w_enc w)).
+  { unfold a. rewrite tstep_fed. fold a. rewrite Hc. cbn. apply app_nil_r. }
+  destruct (hand_over w a) as [[r|] w'].
+  - destruct Hh as (Ho & He & Ht' & Hh).
+    destruct r as [u|e|y|]; try contradiction; [|destruct Hh; congruence].
+    cbn [flush_post]. destruct Htr as [Hes Htr].
+    pose proof (zeros_mono_track w0 w (conj Hes Htr)).
+    destruct Hh as [(c & H1 & H2 & H3)|[(H1 & H2 & H3)|(H1 & _)]]; [| |congruence].
+    + left. exists c. splits; auto; try congruence; lia.
+    + right. splits; try congruence; try lia. destruct H3 as [[H3 _]|[H3 _]]; auto.
+  - destruct Hh as (Ho & He & Ht' & _ & Hes & Hcase).
+    assert (Htr' : sink_track w0 w').
+    { apply (sink_track_step w0 w w' (ta_produced a)); auto. rewrite He. apply tstep_emitted. }
+    assert (Hrec : potential (t_st (w_enc w')) + 1 <= f \/ ta_produced a = []).
+    { destruct (ta_produced a) eqn:Hp; [right; reflexivity|left]. rewrite He. cbn [length] in Hpot. lia. }
+    rewrite He. cbn [t_st].
+    destruct o; [congruence| |].
+    + (* Flush *)
+      destruct (enc_more (t_st (ta_enc a))) eqn:Hmore.
+      * assert (Hf' : potential (t_st (w_enc w')) + 1 <= f).
+        { destruct Hrec as [H|H]; [exact H|].
+          destruct (c_progress_flush HC (t_st (w_enc w)) (w_obuf w) Hob) as [Hx|Hx].
+          - unfold a, IO.tstep in H. cbn [ta_produced] in H. congruence.
+          - unfold a, IO.tstep in Hmore. cbn [ta_enc t_st] in Hmore. congruence. }
+        specialize (IH w' Htr' Ht' ltac:(lia) Hf'). unfold flush_post in IH |- *.
+        destruct (flush_or_close enc_step enc_finished enc_more f w' Flush) as [[u|e|y|] w'']; try contradiction; [|exact IH].
+        destruct IH as (I1 & I2 & I3 & I4 & I5 & I6 & I7 & I8).
+        splits; auto; try congruence; try lia.
+        all: try (rewrite ?Hmore, I7, Ho, He; reflexivity).
+        all: try (rewrite He in I8; lia).
+        all: intros _; destruct (I5 eq_refl) as [J1 J2]; split; [exact J1|];
+          intros Hma; apply J2; rewrite He; unfold a, IO.tstep; cbn [ta_enc t_st];
+          apply (c_flush_keeps HC); exact Hma.
+      * cbn [flush_post]. rewrite ?Hmore. splits; auto; try congruence; try lia.
+        all: try (intros Hx; discriminate).
+        all: try (rewrite He; lia).
+        all: intros _; rewrite He; split; [exact Hmore|];
+          intros Hma; unfold a, IO.tstep in Hmore |- *; cbn [ta_enc t_st] in *;
+          apply (c_flush_done HC); auto.
+    + (* Finish *)
+      destruct (enc_finished (t_st (ta_enc a))) eqn:Hfin.
+      * cbn [flush_post]. rewrite ?Hfin. splits; auto; try congruence; try lia.
+        all: try (intros Hx; discriminate).
+        all: try (rewrite He; lia).
+        all: intros _; rewrite He; exact Hfin.
+      * assert (Hf' : potential (t_st (w_enc w')) + 1 <= f).
+        { destruct Hrec as [H|H]; [exact H|].
+          destruct (c_progress_finish HC (t_st (w_enc w)) (w_obuf w) Hob) as [Hx|Hx].
+          - unfold a, IO.tstep in H. cbn [ta_produced] in H. congruence.
+          - unfold a, IO.tstep in Hfin. cbn [ta_enc t_st] in Hfin. congruence. }
+        specialize (IH w' Htr' Ht' ltac:(lia) Hf'). unfold flush_post in IH |- *.
+        destruct (flush_or_close enc_step enc_finished enc_more f w' Finish) as [[u|e|y|] w'']; try contradiction; [|exact IH].
+        destruct IH as (I1 & I2 & I3 & I4 & I5 & I6 & I7 & I8).
+        splits; auto; try congruence; try lia.
+        all: try (intros Hx; discriminate).
+        all: try (rewrite ?Hfin, I7, Ho, He; reflexivity).
+        all: try (rewrite He in I8; lia).
+Qed.
+
+(* -- outside the known class [stored errors exhausted] (i.e. while error_if_invalid_data is still
+      there) no call of the writer panics and no zero-length write is swallowed, whatever state the
+      encoder is in *)
+Definition known_quiet (w : writer estate) (x : res unit * writer estate) : Prop :=
+  match x with
+  | (Panic _, _) => False
+  | (Ok _, w') => zeros w' = zeros w /\ errs w' = errs w /\ w_ei w' = true
+  | _ => True
+  end.
+
+Lemma write_loop_known : forall fuel (w : writer estate) rest,
+  tail_ok (k_script (w_sink w)) -> w_ei w = true -> known_quiet w (write_loop enc_step fuel w rest).
+Proof.
+  induction fuel as [|f IH]; intros w rest Ht Hei; [exact I|].
+  cbn [write_loop]. destruct (length rest =? 0); [cbn; auto|].
+  set (a := tstep (w_enc w) Process rest (w_obuf w)).
+  pose proof (hand_over_spec w a Ht) as Hh.
+  destruct (hand_over w a) as [[r|] w'].
+  - destruct Hh as (_ & _ & _ & Hh). destruct r as [u|e|y|]; try contradiction; cbn; auto.
+    destruct Hh; congruence.
+  - destruct Hh as (_ & _ & Ht' & _ & Hes & [(H1 & H2 & H3 & H4)|(H1 & H2 & _)]); [|congruence].
+    specialize (IH w' (skipn (ta_consumed a) rest) Ht' ltac:(congruence)).
+    unfold known_quiet in *.
+    destruct (write_loop enc_step f w' (skipn (ta_consumed a) rest)) as [[u|e|y|] w'']; auto.
+    destruct IH as (I1 & I2 & I3). splits; congruence.
+Qed.
+
+Lemma flush_or_close_known : forall fuel (w : writer estate) o,
+  tail_ok (k_script (w_sink w)) -> w_ei w = true ->
+  known_quiet w (flush_or_close enc_step enc_finished enc_more fuel w o).
+Proof.
+  induction fuel as [|f IH]; intros w o Ht Hei; [exact I|].
+  cbn [flush_or_close].
+  set (a := tstep (w_enc w) o [] (w_obuf w)).
+  pose proof (hand_over_spec w a Ht) as Hh.
+  destruct (hand_over w a) as [[r|] w'].
+  - destruct Hh as (_ & _ & _ & Hh). destruct r as [u|e|y|]; try contradiction; cbn; auto.
+    destruct Hh; congruence.
+  - destruct Hh as (_ & _ & Ht' & _ & Hes & [(H1 & H2 & H3 & H4)|(H1 & H2 & _)]); [|congruence].
+    assert (Hrec : known_quiet w (flush_or_close enc_step enc_finished enc_more f w' o)).
+    { specialize (IH w' o Ht' ltac:(congruence)). unfold known_quiet in *.
+      destruct (flush_or_close enc_step enc_finished enc_more f w' o) as [[u|e|y|] w'']; auto.
+      destruct IH as (I1 & I2 & I3). splits; congruence. }
+    destruct o.
+    + destruct (enc_finished (t_st (w_enc w'))); [cbn; splits; congruence|exact Hrec].
+    + destruct (enc_more (t_st (w_enc w'))); [exact Hrec|cbn; splits; congruence].
+    + destruct (enc_finished (t_st (w_enc w'))); [cbn; splits; congruence|exact Hrec].
+Qed.
+
+(* -- the three public operations *)
+Definition write_fuel (w : writer estate) (buf : list byte) : nat :=
+  potential (t_st (w_enc w)) + (G + 1) * length buf + 1.
+Definition flush_fuel (w : writer estate) : nat := potential (t_st (w_enc w)) + 1.
+
+Definition wready (w : writer estate) : Prop := tail_ok (k_script (w_sink w)) /\ 0 < w_obuf w.
+
+Definition write_post (w : writer estate) (buf : list byte) (fuel : nat) (x : res nat * writer estate) : Prop :=
+  match x with
+  | (Ok n, w') =>
+    n = length buf /\ sink_track w w' /\ wready w' /\ w_obuf w' = w_obuf w /\
+    fed (w_enc w') = fed (w_enc w) ++ buf /\ accepting (t_st (w_enc w')) = true /\
+    w_enc w' = ref_write (w_obuf w) fuel (w_enc w) buf /\
+    potential (t_st (w_enc w')) <= potential (t_st (w_enc w)) + G * length buf
+  | (Err e, w') => err_reported w w' e
+  | (Panic _, _) => False
+  | (OutOfFuel, _) => False
+  end.
+
+Lemma write_spec (w : writer estate) buf fuel :
+  wready w -> accepting (t_st (w_enc w)) = true -> write_fuel w buf <= fuel ->
+  write_post w buf fuel (write enc_step fuel w buf).
+Proof.
+  intros [Ht Hob] Hacc Hf. unfold write.
+  pose proof (write_loop_spec w fuel w buf (sink_track_refl w) Ht Hob Hacc Hf) as H.
+  destruct (write_loop enc_step fuel w buf) as [[u|e|y|] w']; cbn [write_loop_post write_post] in *; try contradiction; [|exact H].
+  destruct H as (H1 & H2 & H3 & H4 & H5 & H6 & H7). unfold wready. splits; auto. lia.
+Qed.
+
+Lemma write_returns (w : writer estate) buf fuel :
+  wready w -> write_fuel w buf <= fuel -> fst (write enc_step fuel w buf) <> OutOfFuel.
+Proof.
+  intros [Ht Hob] Hf. unfold write.
+  pose proof (write_loop_returns fuel w buf Ht Hob Hf) as H.
+  destruct (write_loop enc_step fuel w buf) as [[u|e|y|] w']; cbn in *; congruence.
+Qed.
+
+Lemma sink_flush_spec k :
+  tail_ok (k_script k) ->
+  match sink_flush k with
+  | (WAccept _, k') => sink_bytes k' = sink_bytes k /\ tail_ok (k_script k') /\
+                       log_errs (k_log k') = log_errs (k_log k) /\ log_zero_writes (k_log k') = log_zero_writes (k_log k)
+  | (WFail e, k') => sink_bytes k' = sink_bytes k /\ tail_ok (k_script k') /\
+                     log_errs (k_log k') = e :: log_errs (k_log k) /\ log_zero_writes (k_log k') = log_zero_writes (k_log k)
+  | (WSpin, _) => False
+  end.
+Proof.
+  intros Ht. unfold sink_flush, sink_bytes, tail_ok in *.
+  pose proof (sink_flush_go_spec (s_list (k_script k)) (s_tail (k_script k)) (k_got k) (k_log k) Ht) as H.
+  destruct (sink_flush_go _ _ _ _) as [[n|e|] k']; [| |exact H].
+  - destruct H as (H1 & H2 & H3 & H4). rewrite H1, H2. auto.
+  - destruct H as (H1 & H2 & H3 & H4). rewrite H1, H2. auto.
+Qed.
+
+Definition flush_call_post (w : writer estate) (fuel : nat) (x : res unit * writer estate) : Prop :=
+  match x with
+  | (Ok _, w') =>
+    sink_track w w' /\ wready w' /\ w_obuf w' = w_obuf w /\ fed (w_enc w') = fed (w_enc w) /\
+    enc_more (t_st (w_enc w')) = false /\
+    (may_accept (t_st (w_enc w)) -> accepting (t_st (w_enc w')) = true) /\
+    w_enc w' = ref_flush (w_obuf w) fuel (w_enc w) Flush /\
+    potential (t_st (w_enc w')) <= potential (t_st (w_enc w))
+  | (Err e, w') => err_reported w w' e
+  | (Panic _, _) => False
+  | (OutOfFuel, _) => False
+  end.
+
+Lemma flush_spec (w : writer estate) fuel :
+  wready w -> flush_fuel w <= fuel ->
+  flush_call_post w fuel (flush enc_step enc_finished enc_more fuel w).
+Proof.
+  intros [Ht Hob] Hf. unfold flush.
+  pose proof (flush_or_close_spec w Flush ltac:(discriminate) fuel w (sink_track_refl w) Ht Hob Hf) as H.
+  destruct (flush_or_close enc_step enc_finished enc_more fuel w Flush) as [[u|e|y|] w'];
+    cbn [flush_post flush_call_post] in *; try contradiction; [|exact H].
+  destruct H as (H1 & H2 & H3 & H4 & H5 & H6 & H7 & H8).
+  pose proof (sink_flush_spec (w_sink w') H3) as Hs.
+  destruct (sink_flush (w_sink w')) as [[n|e|] k']; [| |contradiction].
+  - destruct Hs as (S1 & S2 & S3 & S4). cbn [flush_call_post].
+    destruct (H5 eq_refl) as [H5a H5b].
+    unfold wready. cbn [w_sink w_obuf w_enc]. splits; auto; try lia.
+    destruct H1 as [E1 T1]. unfold sink_track, errs, zeros in *. cbn [w_sink w_enc w_ez w_ei].
+    rewrite S1, S3, S4. split; auto.
+  - destruct Hs as (S1 & S2 & S3 & S4). cbn [flush_call_post].
+    left. exists e. unfold errs, zeros. cbn [w_sink]. rewrite S3, S4.
+    destruct H1 as [E1 T1]. split; [reflexivity|]. split; [unfold errs in E1; congruence|].
+    apply (zeros_mono_track w w'). split; auto.
+Qed.
+
+(* close (into_inner / Drop): [vis] is what the caller sees - there is no way to report a
+   failure - and [ghost] is the result of flush_or_close that the code discards *)
+Definition close_post (w : writer estate) (fuel : nat) (x : res unit * res unit * writer estate) : Prop :=
+  match x with
+  | (vis, Ok _, w') =>
+    vis = Ok tt /\ sink_track w w' /\ fed (w_enc w') = fed (w_enc w) /\
+    enc_finished (t_st (w_enc w')) = true /\ w_enc w' = ref_flush (w_obuf w) fuel (w_enc w) Finish
+  | (vis, Err e, w') => vis = Ok tt /\ err_reported w w' e      (* reported to nobody *)
+  | (_, Panic _, _) => False
+  | (_, OutOfFuel, _) => False
+  end.
+
+Lemma close_spec (w : writer estate) fuel :
+  wready w -> flush_fuel w <= fuel -> close_post w fuel (close enc_step enc_finished enc_more fuel w).
+Proof.
+  intros [Ht Hob] Hf. unfold close.
+  pose proof (flush_or_close_spec w Finish ltac:(discriminate) fuel w (sink_track_refl w) Ht Hob Hf) as H.
+  destruct (flush_or_close enc_step enc_finished enc_more fuel w Finish) as [[u|e|y|] w'];
+    cbn [flush_post close_post] in *; try contradiction.
+  - destruct H as (H1 & H2 & H3 & H4 & H5 & H6 & H7 & H8). splits; auto.
+  - auto.
+Qed.
+
+(* -- a whole session on a fresh writer: if every call the caller can see succeeded and the sink
+      never answered an error or a zero-length write (this excludes the one thing the caller cannot
+      see: a failure during into_inner / Drop), the sink holds everything the encoder produced, the
+      encoder is finished, and it was fed exactly the concatenation of the written buffers - for
+      every script of short writes and interrupts *)
+Fixpoint written (ops : list wop) : list byte :=
+  match ops with
+  | [] => []
+  | WWrite b :: l => b ++ written l
+  | WFlush :: l => written l
+  | WClose :: _ => []
+  end.
+Fixpoint closes (ops : list wop) : bool :=
+  match ops with [] => false | WClose :: _ => true | _ :: l => closes l end.
+
+Definition wclean (w : writer estate) : Prop :=
+  wready w /\ accepting (t_st (w_enc w)) = true /\ w_ez w = true /\ w_ei w = true /\
+  sink_bytes (w_sink w) = emitted (w_enc w).
+
+Definition session_fuel (w : writer estate) (ops : list wop) : nat :=
+  potential (t_st (w_enc w)) + (G + 1) * length (written ops) + 1.
+
+Lemma clean_track (w w' : writer estate) :
+  wclean w -> sink_track w w' ->
+  errs w' = errs w /\ zeros w' = zeros w /\ w_ez w' = true /\ w_ei w' = true /\
+  sink_bytes (w_sink w') = emitted (w_enc w').
+Proof.
+  intros (_ & _ & Hez & Hei & Hs) [He [((d & H1 & H2) & H3 & H4 & H5)|(H1 & _)]]; [|congruence].
+  splits; auto; try congruence.
+Qed.
+
+Lemma write_session_complete : forall ops fuel (w : writer estate),
+  wclean w -> session_fuel w ops <= fuel -> closes ops = true ->
+  let (rs, w') := write_session enc_step enc_finished enc_more fuel ops w in
+  Forall (fun r => r = Ok tt) rs -> errs w' = errs w -> zeros w' = zeros w ->
+  enc_finished (t_st (w_enc w')) = true /\ sink_bytes (w_sink w') = emitted (w_enc w') /\
+  fed (w_enc w') = fed (w_enc w) ++ written ops.
+Proof.
+  induction ops as [|o ops IH]; intros fuel w Hcl Hf Hc; [discriminate|].
+  pose proof Hcl as (Hr & Hacc & Hez & Hei & Hs).
+  destruct o as [b| |]; cbn [write_session].
+  - (* write *)
+    assert (Hwf : write_fuel w b <= fuel).
+    { unfold write_fuel, session_fuel in *. cbn [written] in Hf. rewrite app_length in Hf. nia. }
+    pose proof (write_spec w b fuel Hr Hacc Hwf) as Hw.
+    destruct (write enc_step fuel w b) as [[n|e|y|] w1]; cbn [write_post] in Hw; try contradiction.
+    + destruct Hw as (Hn & Htr & Hr1 & Ho1 & Hfed1 & Hacc1 & _ & Hpot1).
+      destruct (clean_track w w1 Hcl Htr) as (E1 & Z1 & Ez1 & Ei1 & S1).
+      assert (Hcl1 : wclean w1) by (unfold wclean; auto).
+      assert (Hf1 : session_fuel w1 ops <= fuel).
+      { unfold session_fuel in *. cbn [written] in Hf. rewrite app_length in Hf. nia. }
+      specialize (IH fuel w1 Hcl1 Hf1 Hc). cbn [stops].
+      destruct (write_session enc_step enc_finished enc_more fuel ops w1) as [rs w'].
+      intros Hall He Hz. inversion Hall as [|? ? _ Hall']; subst.
+      rewrite <- E1 in He. rewrite <- Z1 in Hz.
+      destruct (IH Hall' He Hz) as (I1 & I2 & I3).
+      splits; auto. rewrite I3, Hfed1. cbn [written]. apply app_assoc_reverse.
+    + cbn [stops res_forget].
+      destruct (write_session enc_step enc_finished enc_more fuel ops w1) as [rs w'].
+      intros Hall. inversion Hall as [|? ? Hx _]. discriminate.
+  - (* flush *)
+    assert (Hff : flush_fuel w <= fuel) by (unfold flush_fuel, session_fuel in *; lia).
+    pose proof (flush_spec w fuel Hr Hff) as Hw.
+    destruct (flush enc_step enc_finished enc_more fuel w) as [[u|e|y|] w1]; cbn [flush_call_post] in Hw; try contradiction.
+    + destruct Hw as (Htr & Hr1 & Ho1 & Hfed1 & _ & Hacc1 & _ & Hpot1).
+      destruct (clean_track w w1 Hcl Htr) as (E1 & Z1 & Ez1 & Ei1 & S1).
+      assert (Hcl1 : wclean w1).
+      { unfold wclean. splits; auto. apply Hacc1. apply (c_live HC). exact Hacc. }
+      assert (Hf1 : session_fuel w1 ops <= fuel).
+      { unfold session_fuel in *. cbn [written] in Hf. lia. }
+      specialize (IH fuel w1 Hcl1 Hf1 Hc). cbn [stops].
+      destruct (write_session enc_step enc_finished enc_more fuel ops w1) as [rs w'].
+      intros Hall He Hz. inversion Hall as [|? ? _ Hall']; subst.
+      rewrite <- E1 in He. rewrite <- Z1 in Hz.
+      destruct (IH Hall' He Hz) as (I1 & I2 & I3).
+      splits; auto. rewrite I3, Hfed1. reflexivity.
+    + cbn [stops].
+      destruct (write_session enc_step enc_finished enc_more fuel ops w1) as [rs w'].
+      intros Hall. inversion Hall as [|? ? Hx _]. discriminate.
+  - (* close *)
+    assert (Hff : flush_fuel w <= fuel) by (unfold flush_fuel, session_fuel in *; lia).
+    pose proof (close_spec w fuel Hr Hff) as Hw.
+    destruct (close enc_step enc_finished enc_more fuel w) as [[vis gh] w1].
+    destruct gh as [u|e|y|]; cbn [close_post] in Hw; try contradiction.
+    + destruct Hw as (_ & Htr & Hfed1 & Hfin & _).
+      destruct (clean_track w w1 Hcl Htr) as (E1 & Z1 & Ez1 & Ei1 & S1).
+      intros _ _ _. cbn [written]. rewrite app_nil_r. auto.
+    + destruct Hw as (_ & [(c & _ & Hx & _)|(_ & Hx & _)]); intros _ He Hz.
+      * rewrite He in Hx. exfalso. clear -Hx. induction (errs w); [discriminate|]. inversion Hx. auto.
+      * lia.
+Qed.
+
+(* ------------------------------------------------------------------ enc/mod.rs: the copy adapter *)
+
+Definition kzeros (k : sink) : nat := log_zero_writes (k_log k).
+Definition kerrs (k : sink) : list N := log_errs (k_log k).
+
+Lemma copy_drain_spec : forall fuel (c : copier estate) lim,
+  tail_ok (k_script (c_sink c)) -> c_out_off c <= lim -> lim <= length (c_obuf c) ->
+  lim - c_out_off c < fuel ->
+  match copy_drain true fuel c lim with
+  | (Ok _, c') =>
+    c' = set_sink c (c_sink c') lim /\ tail_ok (k_script (c_sink c')) /\
+    sink_bytes (c_sink c') = sink_bytes (c_sink c) ++ firstn (lim - c_out_off c) (skipn (c_out_off c) (c_obuf c)) /\
+    kerrs (c_sink c') = kerrs (c_sink c) /\ kzeros (c_sink c') = kzeros (c_sink c)
+  | (Err e, c') =>
+    c' = set_sink c (c_sink c') (c_out_off c') /\ tail_ok (k_script (c_sink c')) /\
+    ((exists code, e = first_err c (EScript code) /\ kerrs (c_sink c') = code :: kerrs (c_sink c) /\
+                   kzeros (c_sink c') = kzeros (c_sink c))
+     \/ (e = first_err c EUnexpectedEof /\ kerrs (c_sink c') = kerrs (c_sink c) /\
+         kzeros (c_sink c') = S (kzeros (c_sink c))))
+  | (Panic _, _) => False
+  | (OutOfFuel, _) => False
+  end.
+Proof.
+  induction fuel as [|f IH]; intros c lim Ht Hol Hll Hf; [lia|].
+  cbn [copy_drain].
+  destruct (Nat.leb_spec lim (c_out_off c)) as [Hle|Hlt].
+  - assert (c_out_off c = lim) by lia. subst lim. rewrite Nat.sub_diag. cbn [firstn]. rewrite app_nil_r.
+    splits; auto. destruct c; reflexivity.
+  - set (d := firstn (lim - c_out_off c) (skipn (c_out_off c) (c_obuf c))).
+    assert (Hd : length d = lim - c_out_off c).
+    { unfold d. rewrite firstn_length, skipn_length. lia. }
+    pose proof (sink_write_spec (c_sink c) d Ht) as Hs.
+    destruct (sink_write (c_sink c) d) as [[n|e|] k']; [| |contradiction].
+    + destruct Hs as (Hn & Hb & Ht' & He & Hz). cbn [andb].
+      destruct (Nat.eqb_spec n 0) as [Hn0|Hn0].
+      * subst n. cbn [set_sink c_sink c_out_off]. splits; auto.
+        right. unfold kerrs, kzeros. splits; auto.
+        rewrite Hz. unfold zero_answer. rewrite Hd.
+        destruct (Nat.ltb_spec 0 (lim - c_out_off c)); [reflexivity|lia].
+      * specialize (IH (set_sink c k' (c_out_off c + n)) lim).
+        cbn [set_sink c_sink c_out_off c_obuf] in IH.
+        specialize (IH Ht' ltac:(lia) Hll ltac:(lia)).
+        destruct (copy_drain true f (set_sink c k' (c_out_off c + n)) lim) as [[u|e|y|] c']; try contradiction.
+        -- destruct IH as (I1 & I2 & I3 & I4 & I5).
+           split; [etransitivity; [exact I1|reflexivity]|]. split; [exact I2|].
+           split.
+           { rewrite I3, Hb, <- app_assoc. f_equal.
+             assert (Hsplit : d = firstn n (skipn (c_out_off c) (c_obuf c)) ++
+                                  firstn (lim - (c_out_off c + n)) (skipn (c_out_off c + n) (c_obuf c))).
+             { unfold d. replace (lim - c_out_off c) with (n + (lim - (c_out_off c + n))) by lia. apply window_split. }
+             assert (Hfn : firstn n d = firstn n (skipn (c_out_off c) (c_obuf c))).
+             { unfold d. rewrite firstn_firstn, Nat.min_l by lia. reflexivity. }
+             rewrite Hfn. symmetry. exact Hsplit. }
+           split; [unfold kerrs in *; congruence|].
+           unfold kzeros in *. rewrite I5, Hz. unfold zero_answer.
+           destruct (Nat.eqb_spec n 0); [lia|]. reflexivity.
+        -- destruct IH as (I1 & I2 & I3).
+           split; [etransitivity; [exact I1|reflexivity]|]. split; [exact I2|].
+           assert (Hz0 : kzeros k' = kzeros (c_sink c)).
+           { unfold kzeros. rewrite Hz. unfold zero_answer. destruct (Nat.eqb_spec n 0); [lia|]. reflexivity. }
+           unfold kerrs in *. unfold first_err in *. cbn [set_sink c_read_err] in I3.
+           destruct I3 as [(code & J1 & J2 & J3)|(J1 & J2 & J3)].
+           ++ left. exists code. splits; auto; congruence.
+           ++ right. splits; auto; congruence.
+    + destruct Hs as (Hb & Ht' & He & Hz). cbn [set_sink c_sink c_out_off]. splits; auto.
+      left. exists e. unfold kerrs, kzeros. auto.
+Qed.
+
+Definition pend_in (c : copier estate) : list byte :=
+  firstn (c_avail_in c) (skipn (c_in_off c) (c_ibuf c)).
+Definition pend_out (c : copier estate) : list byte := firstn (c_out_off c) (c_obuf c).
+
+(* the loop invariant of the copy adapter (at the head of `loop { .. }`), relative to what the
+   wrapped streams had logged when the call started *)
+Definition CInv (st0 : estate) (L0 K0 : list N) (Z0 : nat) (c : copier estate) : Prop :=
+  0 < length (c_ibuf c) /\ 0 < length (c_obuf c) /\
+  c_in_off c + c_avail_in c <= length (c_ibuf c) /\
+  c_out_off c + c_avail_out c = length (c_obuf c) /\
+  tail_ok (src_script (c_src c)) /\ tail_ok (k_script (c_sink c)) /\
+  src_taken_bytes (c_src c) = fed (c_enc c) ++ pend_in c /\
+  emitted (c_enc c) = sink_bytes (c_sink c) ++ pend_out c /\
+  c_total c = N.of_nat (length (emitted (c_enc c))) /\
+  (accepting (t_st (c_enc c)) = true \/ (c_eof c = true /\ c_avail_in c = 0)) /\
+  ((c_read_err c = None /\ log_errs (src_log (c_src c)) = L0) \/
+   (exists code, c_read_err c = Some (EScript code) /\ log_errs (src_log (c_src c)) = code :: L0 /\
+                 c_eof c = true /\ c_avail_in c = 0)) /\
+  kerrs (c_sink c) = K0 /\ kzeros (c_sink c) = Z0 /\
+  ReachPF st0 (c_enc c).
+
+Definition copy_measure (c : copier estate) : nat :=
+  (G + 1) * (length (src_rest (c_src c)) + c_avail_in c) + potential (t_st (c_enc c)).
+
+Lemma firstn_write_at_end (buf : list byte) pos d :
+  pos + length d <= length buf -> firstn (pos + length d) (write_at buf pos d) = firstn pos buf ++ d.
+Proof.
+  intros H. unfold write_at. rewrite firstn_app, firstn_length, Nat.min_l by lia.
+  rewrite firstn_all2 by (rewrite firstn_length; lia).
+  replace (pos + length d - pos) with (length d) by lia.
+  rewrite firstn_app_exact by reflexivity. reflexivity.
+Qed.
+
+Lemma copy_fill_spec st0 L0 K0 Z0 (c : copier estate) :
+  CInv st0 L0 K0 Z0 c -> enc_finished (t_st (c_enc c)) = false ->
+  exists c1, copy_fill c = Some c1 /\ CInv st0 L0 K0 Z0 c1 /\
+    (c_avail_in c1 = 0 -> c_eof c1 = true) /\
+    length (src_rest (c_src c1)) + c_avail_in c1 = length (src_rest (c_src c)) + c_avail_in c /\
+    c_enc c1 = c_enc c /\ c_avail_out c1 = c_avail_out c /\ length (c_obuf c1) = length (c_obuf c).
+Proof.
+  intros (Hi & Ho & Hin & Hout & Hts & Htk & Htaken & Hem & Htot & Hacc & Hre & Hke & Hkz & Hreach) Hnf.
+  unfold copy_fill.
+  destruct ((c_avail_in c =? 0) && negb (c_eof c)) eqn:Hc.
+  - apply andb_true_iff in Hc. destruct Hc as [Hc1 Hc2]. apply Nat.eqb_eq in Hc1. apply negb_true_iff in Hc2.
+    assert (Hpi : pend_in c = []) by (unfold pend_in; rewrite Hc1; reflexivity).
+    assert (Hacc' : accepting (t_st (c_enc c)) = true) by (destruct Hacc as [H|[H _]]; [exact H|congruence]).
+    assert (Hre' : c_read_err c = None /\ log_errs (src_log (c_src c)) = L0).
+    { destruct Hre as [H|(code & _ & _ & H & _)]; [exact H|congruence]. }
+    destruct Hre' as [Hre1 Hre2].
+    pose proof (io_read_spec (c_src c) (length (c_ibuf c)) Hts) as Hs.
+    destruct (io_read (c_src c) (length (c_ibuf c))) as [[d|e|] s']; [| |contradiction].
+    + destruct Hs as (Hd & Hrest & Htk' & Htl & Hle).
+      eexists. split; [reflexivity|].
+      assert (Hwl : length (write_at (c_ibuf c) 0 d) = length (c_ibuf c)) by (apply write_at_length; lia).
+      split.
+      { unfold CInv, pend_in, pend_out. cbn [c_ibuf c_obuf c_in_off c_out_off c_avail_in c_avail_out c_eof c_read_err c_total c_enc c_src c_sink].
+        rewrite Hwl. splits; auto; try lia.
+        - rewrite Htk', Htaken, Hpi, app_nil_r. f_equal. cbn [skipn]. symmetry.
+          apply (window_write_at (c_ibuf c) 0 d). lia.
+        - left. split; [exact Hre1|congruence]. }
+      cbn [c_ibuf c_obuf c_in_off c_out_off c_avail_in c_avail_out c_eof c_read_err c_total c_enc c_src c_sink].
+      splits; auto.
+      * intros H0. rewrite H0. reflexivity.
+      * rewrite Hrest, app_length. lia.
+    + destruct Hs as (Hrest & Htk' & Htl & Hle).
+      eexists. split; [reflexivity|].
+      split.
+      { unfold CInv, pend_in, pend_out. cbn [c_ibuf c_obuf c_in_off c_out_off c_avail_in c_avail_out c_eof c_read_err c_total c_enc c_src c_sink].
+        splits; auto; try lia.
+        - rewrite Htk', Htaken, Hpi. reflexivity.
+        - right. exists e. splits; auto. congruence. }
+      cbn [c_ibuf c_obuf c_in_off c_out_off c_avail_in c_avail_out c_eof c_read_err c_total c_enc c_src c_sink].
+      splits; auto. rewrite Hrest. lia.
+  - exists c. split; [reflexivity|]. split; [unfold CInv; splits; auto|].
+    splits; auto. intros H0. apply andb_false_iff in Hc. destruct Hc as [Hc|Hc].
+    + apply Nat.eqb_neq in Hc. lia.
+    + apply negb_false_iff in Hc. exact Hc.
+Qed.
+
+Lemma copy_compress_spec st0 L0 K0 Z0 (c1 : copier estate) :
+  CInv st0 L0 K0 Z0 c1 -> 0 < c_avail_out c1 -> enc_finished (t_st (c_enc c1)) = false ->
+  (c_avail_in c1 = 0 -> c_eof c1 = true) ->
+  let (c2, ok) := copy_compress enc_step c1 in
+  ok = true /\ CInv st0 L0 K0 Z0 c2 /\ length (c_obuf c2) = length (c_obuf c1) /\
+  c_src c2 = c_src c1 /\ c_sink c2 = c_sink c1 /\
+  (enc_finished (t_st (c_enc c2)) = false -> copy_measure c2 < copy_measure c1) /\
+  (enc_finished (t_st (c_enc c2)) = true -> c_avail_in c2 = 0 /\ c_eof c2 = true).
+Proof.
+  intros (Hi & Ho & Hin & Hout & Hts & Htk & Htaken & Hem & Htot & Hacc & Hre & Hke & Hkz & Hreach) Hcap Hnf Heof.
+  unfold copy_compress.
+  set (o := if c_avail_in c1 =? 0 then Finish else Process).
+  set (inp := firstn (c_avail_in c1) (skipn (c_in_off c1) (c_ibuf c1))).
+  assert (Hinpl : length inp = c_avail_in c1) by (unfold inp; rewrite firstn_length, skipn_length; lia).
+  set (a := tstep (c_enc c1) o inp (c_avail_out c1)).
+  assert (Hc : ta_consumed a <= c_avail_in c1).
+  { unfold a, IO.tstep. cbn [ta_consumed]. rewrite <- Hinpl. apply (c_consumed HC). }
+  assert (Hp : length (ta_produced a) <= c_avail_out c1) by (apply (c_produced HC)).
+  assert (Hpot : potential (t_st (ta_enc a)) + length (ta_produced a) <= potential (t_st (c_enc c1)) + G * ta_consumed a)
+    by (apply (c_potential HC)).
+  assert (Hok : ta_ok a = true /\
+                (accepting (t_st (ta_enc a)) = true \/ (c_eof c1 = true /\ c_avail_in c1 = 0)) /\
+                (enc_finished (t_st (ta_enc a)) = true -> c_avail_in c1 = 0) /\
+                (enc_finished (t_st (ta_enc a)) = false -> 0 < ta_consumed a \/ ta_produced a <> [])).
+  { unfold a, o, IO.tstep. cbn [ta_ok ta_enc t_st ta_consumed ta_produced].
+    destruct (Nat.eqb_spec (c_avail_in c1) 0) as [H0|H0].
+    - assert (inp = []) by (destruct inp; [reflexivity|cbn in Hinpl; lia]). rewrite H.
+      split; [apply (c_accept_empty HC); discriminate|]. split; [right; auto|]. split; [auto|].
+      intros Hx. destruct (c_progress_finish HC (t_st (c_enc c1)) (c_avail_out c1) Hcap) as [Hy|Hy]; [right; exact Hy|congruence].
+    - assert (Ha : accepting (t_st (c_enc c1)) = true) by (destruct Hacc as [Ha|[_ Ha]]; [exact Ha|lia]).
+      destruct (c_accept_process HC (t_st (c_enc c1)) inp (c_avail_out c1) Ha) as [Hok Ha'].
+      split; [exact Hok|]. split; [left; exact Ha'|].
+      split.
+      + intros Hx. rewrite (c_process_no_finish HC _ inp (c_avail_out c1) Ha) in Hx. discriminate.
+      + intros _. apply (c_progress_process HC); auto. intros Hx. rewrite Hx in Hinpl. cbn in Hinpl. lia. }
+  destruct Hok as (Hok & Hacc2 & Hfin2 & Hprog).
+  split; [exact Hok|].
+  assert (Hwl : length (write_at (c_obuf c1) (c_out_off c1) (ta_produced a)) = length (c_obuf c1))
+    by (apply write_at_length; lia).
+  assert (Hem2 : emitted (ta_enc a) = emitted (c_enc c1) ++ ta_produced a) by (unfold a; apply tstep_emitted).
+  assert (Hfed2 : fed (ta_enc a) = fed (c_enc c1) ++ firstn (ta_consumed a) inp) by (unfold a; apply tstep_fed).
+  split.
+  { unfold CInv, pend_in, pend_out.
+    cbn [c_ibuf c_obuf c_in_off c_out_off c_avail_in c_avail_out c_eof c_read_err c_total c_enc c_src c_sink].
+    rewrite Hwl. splits; auto; try lia.
+    - (* input side *)
+      rewrite Hfed2. rewrite <- app_assoc. rewrite Htaken. f_equal.
+      unfold pend_in.
+      replace (c_avail_in c1) with (ta_consumed a + (c_avail_in c1 - ta_consumed a)) at 1 by lia.
+      rewrite window_split. f_equal. unfold inp. rewrite firstn_firstn, Nat.min_l by lia. reflexivity.
+    - (* output side *)
+      rewrite Hem2.
+      rewrite firstn_write_at_end by lia. rewrite Hem. unfold pend_out. apply app_assoc_reverse.
+    - rewrite Hem2. rewrite app_length, Nat2N.inj_add, Htot. reflexivity.
+    - destruct Hacc2 as [Ha|[Ha Hb]]; [left; exact Ha|right; split; [exact Ha|lia]].
+    - destruct Hre as [H|(code & H1 & H2 & H3 & H4)]; [left; exact H|right; exists code; splits; auto; lia].
+    - unfold a. apply rp_step; [exact Hreach|]. unfold o. destruct (c_avail_in c1 =? 0); discriminate. }
+  cbn [c_ibuf c_obuf c_in_off c_out_off c_avail_in c_avail_out c_eof c_read_err c_total c_enc c_src c_sink].
+  split; [exact Hwl|]. split; [reflexivity|]. split; [reflexivity|].
+  split.
+  - intros Hx. specialize (Hprog Hx). unfold copy_measure.
+    cbn [c_ibuf c_obuf c_in_off c_out_off c_avail_in c_avail_out c_eof c_read_err c_total c_enc c_src c_sink].
+    assert (0 < ta_consumed a \/ 0 < length (ta_produced a))
+      by (destruct Hprog as [H|H]; [auto|right; destruct (ta_produced a); [congruence|cbn; lia]]).
+    nia.
+  - intros Hx. specialize (Hfin2 Hx). split; [lia|auto].
+Qed.
+
+Lemma cons_neq {A} (x : A) l : x :: l <> l.
+Proof. induction l as [|y l IH]; [discriminate|]. intros H. inversion H. subst. auto. Qed.
+
+(* the result of the whole call, relative to what the two wrapped streams had logged before *)
+Definition copy_post (L0 K0 : list N) (Z0 : nat) (x : res N * copier estate) : Prop :=
+  match x with
+  | (Ok n, c') =>
+    enc_finished (t_st (c_enc c')) = true /\ sink_bytes (c_sink c') = emitted (c_enc c') /\
+    src_taken_bytes (c_src c') = fed (c_enc c') /\ c_eof c' = true /\
+    n = N.of_nat (length (emitted (c_enc c'))) /\
+    log_errs (src_log (c_src c')) = L0 /\ kerrs (c_sink c') = K0 /\ kzeros (c_sink c') = Z0
+  | (Err e, c') =>
+    (* the first read error is recorded, the stream is still finished, the error is returned *)
+    (exists code, e = EScript code /\ log_errs (src_log (c_src c')) = code :: L0 /\
+       (kerrs (c_sink c') = K0 -> kzeros (c_sink c') = Z0 ->
+        enc_finished (t_st (c_enc c')) = true /\ sink_bytes (c_sink c') = emitted (c_enc c') /\
+        src_taken_bytes (c_src c') = fed (c_enc c')))
+    \/ (* no read error: the sink's own error, or an error standing for its zero-length write *)
+    (log_errs (src_log (c_src c')) = L0 /\
+     ((exists code, e = EScript code /\ kerrs (c_sink c') = code :: K0 /\ kzeros (c_sink c') = Z0)
+      \/ (e = EUnexpectedEof /\ kerrs (c_sink c') = K0 /\ kzeros (c_sink c') = S Z0)))
+  | (Panic _, _) => False
+  | (OutOfFuel, _) => False
+  end.
+
+Lemma copy_write_out_spec st0 L0 K0 Z0 (c2 : copier estate) f :
+  CInv st0 L0 K0 Z0 c2 -> length (c_obuf c2) < f ->
+  match copy_write_out true f c2 (enc_finished (t_st (c_enc c2))) with
+  | (Ok _, c4) =>
+    CInv st0 L0 K0 Z0 c4 /\ 0 < c_avail_out c4 /\ c_enc c4 = c_enc c2 /\ c_src c4 = c_src c2 /\
+    c_avail_in c4 = c_avail_in c2 /\ c_eof c4 = c_eof c2 /\ c_read_err c4 = c_read_err c2 /\ c_total c4 = c_total c2 /\
+    length (c_obuf c4) = length (c_obuf c2) /\
+    (enc_finished (t_st (c_enc c2)) = true -> sink_bytes (c_sink c4) = emitted (c_enc c4))
+  | (Err e, c4) => copy_post L0 K0 Z0 (Err e, c4)
+  | (Panic _, _) => False
+  | (OutOfFuel, _) => False
+  end.
+Proof.
+  intros (Hi & Ho & Hin & Hout & Hts & Htk & Htaken & Hem & Htot & Hacc & Hre & Hke & Hkz & Hreach) Hf.
+  unfold copy_write_out.
+  destruct ((c_avail_out c2 =? 0) || enc_finished (t_st (c_enc c2))) eqn:Hc.
+  - assert (Hlim : length (c_obuf c2) - c_avail_out c2 = c_out_off c2) by lia.
+    rewrite Hlim, Nat.eqb_refl. cbn [negb].
+    pose proof (copy_drain_spec f (set_sink c2 (c_sink c2) 0) (c_out_off c2)) as Hd.
+    cbn [set_sink c_sink c_out_off c_obuf] in Hd.
+    specialize (Hd Htk ltac:(lia) ltac:(lia) ltac:(lia)).
+    destruct (copy_drain true f (set_sink c2 (c_sink c2) 0) (c_out_off c2)) as [[u|e|y|] c3]; try contradiction.
+    + destruct Hd as (D1 & D2 & D3 & D4 & D5).
+      rewrite Nat.sub_0_r in D3. cbn [skipn] in D3. fold (pend_out c2) in D3.
+      rewrite D1. cbn [set_sink c_ibuf c_obuf c_in_off c_out_off c_avail_in c_avail_out c_eof c_read_err c_total c_enc c_src c_sink].
+      assert (Hsb : sink_bytes (c_sink c3) = emitted (c_enc c2)) by (rewrite D3, Hem; reflexivity).
+      split.
+      { unfold CInv, pend_in, pend_out.
+        cbn [c_ibuf c_obuf c_in_off c_out_off c_avail_in c_avail_out c_eof c_read_err c_total c_enc c_src c_sink firstn].
+        splits; auto; try lia; try congruence.
+        rewrite app_nil_r. symmetry. exact Hsb. }
+      splits; auto; lia.
+    + destruct Hd as (D1 & D2 & D3).
+      cbn [copy_post]. rewrite D1.
+      cbn [set_sink c_ibuf c_obuf c_in_off c_out_off c_avail_in c_avail_out c_eof c_read_err c_total c_enc c_src c_sink].
+      unfold first_err in D3. cbn [set_sink c_read_err] in D3.
+      destruct Hre as [[Hr1 Hr2]|(rc & Hr1 & Hr2 & Hr3 & Hr4)].
+      * right. split; [exact Hr2|]. rewrite Hr1 in D3.
+        destruct D3 as [(code & J1 & J2 & J3)|(J1 & J2 & J3)].
+        -- left. exists code. splits; auto; congruence.
+        -- right. splits; auto; congruence.
+      * left. exists rc. rewrite Hr1 in D3. split.
+        { destruct D3 as [(code & J1 & _)|(J1 & _)]; exact J1. }
+        split; [exact Hr2|].
+        intros E1 E2. exfalso.
+        destruct D3 as [(code & J1 & J2 & J3)|(J1 & J2 & J3)].
+        -- rewrite Hke in J2. rewrite J2 in E1. exact (cons_neq _ _ E1).
+        -- rewrite Hkz in J3. lia.
+  - apply orb_false_iff in Hc. destruct Hc as [Hc1 Hc2]. apply Nat.eqb_neq in Hc1.
+    split; [unfold CInv; splits; auto|]. splits; auto; try lia.
+    intros Hx. congruence.
+Qed.
+
+Definition copy_fuel (c : copier estate) : nat := copy_measure c + length (c_obuf c) + 2.
+
+Lemma copy_loop_spec st0 L0 K0 Z0 : forall fuel (c : copier estate),
+  CInv st0 L0 K0 Z0 c -> 0 < c_avail_out c -> enc_finished (t_st (c_enc c)) = false ->
+  copy_fuel c <= fuel ->
+  copy_post L0 K0 Z0 (copy_loop enc_step enc_finished true fuel c).
+Proof.
+  induction fuel as [|f IH]; intros c HI Hcap Hnf Hf; [unfold copy_fuel in Hf; lia|].
+  cbn [copy_loop].
+  destruct (copy_fill_spec st0 L0 K0 Z0 c HI Hnf) as (c1 & E1 & HI1 & Heof1 & Hm1 & He1 & Ha1 & Hl1).
+  rewrite E1.
+  assert (Hnf1 : enc_finished (t_st (c_enc c1)) = false) by (rewrite He1; exact Hnf).
+  pose proof (copy_compress_spec st0 L0 K0 Z0 c1 HI1 ltac:(lia) Hnf1 Heof1) as Hc.
+  destruct (copy_compress enc_step c1) as [c2 ok].
+  destruct Hc as (Hok & HI2 & Hl2 & Hs2 & Hk2 & Hdec & Hfin2).
+  assert (Hmeas1 : copy_measure c1 = copy_measure c).
+  { unfold copy_measure. rewrite He1. f_equal. f_equal. exact Hm1. }
+  pose proof (copy_write_out_spec st0 L0 K0 Z0 c2 f HI2) as Hw.
+  assert (Hf2 : length (c_obuf c2) < f) by (unfold copy_fuel in Hf; lia).
+  specialize (Hw Hf2).
+  destruct (copy_write_out true f c2 (enc_finished (t_st (c_enc c2)))) as [[u|e|y|] c4]; try contradiction.
+  2:{ exact Hw. }
+  destruct Hw as (HI4 & Hcap4 & He4 & Hs4 & Hai4 & Heof4 & Hre4 & Htot4 & Hl4 & Hsink4).
+  rewrite Hok. cbn [negb].
+  destruct (enc_finished (t_st (c_enc c2))) eqn:Hfin.
+  - (* finished: report the recorded read error, or success *)
+    destruct (Hfin2 eq_refl) as [Hai2 Heof2].
+    pose proof HI4 as (Hi & Ho & Hin & Hout & Hts & Htk & Htaken & Hem & Htot & Hacc & Hre & Hke & Hkz & Hreach).
+    assert (Hpi : pend_in c4 = []) by (unfold pend_in; rewrite Hai4, Hai2; reflexivity).
+    assert (Htf : src_taken_bytes (c_src c4) = fed (c_enc c4)) by (rewrite Htaken, Hpi, app_nil_r; reflexivity).
+    assert (Hfin4 : enc_finished (t_st (c_enc c4)) = true) by (rewrite He4; exact Hfin).
+    assert (Hsk : sink_bytes (c_sink c4) = emitted (c_enc c4)) by (apply Hsink4; reflexivity).
+    destruct Hre as [[Hr1 Hr2]|(rc & Hr1 & Hr2 & Hr3 & Hr4)].
+    + rewrite Hr1. cbn [copy_post].
+      split; [exact Hfin4|]. split; [exact Hsk|]. split; [exact Htf|]. split; [congruence|].
+      split; [exact Htot|]. split; [exact Hr2|]. split; [exact Hke|exact Hkz].
+    + rewrite Hr1. cbn [copy_post]. left. exists rc. split; [reflexivity|]. split; [exact Hr2|].
+      intros _ _. split; [exact Hfin4|]. split; [exact Hsk|exact Htf].
+  - (* not finished: the measure went down, go round again *)
+    specialize (Hdec eq_refl).
+    assert (Hm4 : copy_measure c4 = copy_measure c2).
+    { unfold copy_measure. rewrite He4, Hs4, Hai4. reflexivity. }
+    apply IH; auto.
+    + rewrite He4. exact Hfin.
+    + unfold copy_fuel in *. lia.
+Qed.
+
+(* -- fresh adapters satisfy their invariants *)
+Definition fresh_source (s : source) : Prop := src_taken s = [] /\ tail_ok (src_script s).
+
+Lemma reader_new_inv st0 n src :
+  0 < n -> fresh_source src -> accepting st0 = true -> enc_finished st0 = false ->
+  RInv st0 (reader_new n st0 src).
+Proof.
+  intros Hn [Htk Ht] Hacc Hnf. unfold RInv, reader_new, pending.
+  cbn [r_buf r_off r_len r_eof r_enc r_src t_st]. rewrite repeat_length.
+  splits; auto; try lia.
+  - unfold src_taken_bytes. rewrite Htk. reflexivity.
+  - intros Hx. congruence.
+  - apply rp_init.
+Qed.
+
+Lemma copier_new_inv st0 ni no src k :
+  0 < ni -> 0 < no -> fresh_source src -> tail_ok (k_script k) -> k_got k = [] -> accepting st0 = true ->
+  CInv st0 (log_errs (src_log src)) (kerrs k) (kzeros k) (copier_new ni no st0 src k).
+Proof.
+  intros Hi Ho [Htk Ht] Hkt Hkg Hacc. unfold CInv, copier_new, pend_in, pend_out.
+  cbn [c_ibuf c_obuf c_in_off c_out_off c_avail_in c_avail_out c_eof c_read_err c_total c_enc c_src c_sink t_st].
+  rewrite !repeat_length.
+  splits; auto; try lia.
+  - unfold src_taken_bytes. rewrite Htk. reflexivity.
+  - unfold sink_bytes. rewrite Hkg. reflexivity.
+  - apply rp_init.
+Qed.
+
+(* C11_copy: the copy adapter returns within copy_fuel iterations; see [copy_post] for what *)
+Lemma copy_spec st0 ni no src k fuel :
+  0 < ni -> 0 < no -> fresh_source src -> tail_ok (k_script k) -> k_got k = [] ->
+  accepting st0 = true -> enc_finished st0 = false ->
+  copy_fuel (copier_new ni no st0 src k) <= fuel ->
+  copy_post (log_errs (src_log src)) (kerrs k) (kzeros k)
+            (copy enc_step enc_finished fuel (copier_new ni no st0 src k)).
+Proof.
+  intros Hi Ho Hs Hkt Hkg Hacc Hnf Hf. unfold copy.
+  replace (length (c_ibuf (copier_new ni no st0 src k)) =? 0) with false
+    by (unfold copier_new; cbn [c_ibuf]; rewrite repeat_length; symmetry; apply Nat.eqb_neq; lia).
+  replace (length (c_obuf (copier_new ni no st0 src k)) =? 0) with false
+    by (unfold copier_new; cbn [c_obuf]; rewrite repeat_length; symmetry; apply Nat.eqb_neq; lia).
+  cbn [orb].
+  change io_copy_zero_write_is_error with true.
+  apply (copy_loop_spec st0); auto.
+  apply copier_new_inv; auto.
+Qed.
+
+(* -- "short reads do not change the delivered bytes": whatever the script, once the stream has
+      ended the caller has received the one stream that belongs to the bytes the wrapped reader
+      delivered - provided the encoder's output does not depend on how its input is cut into
+      calls ([chunk_independent]; true of qualities >= 2, false of the one-pass qualities 0 and 1,
+      see the known finding) *)
+Definition chunk_independent (st0 : estate) (stream_of : list byte -> list byte) : Prop :=
+  forall t, ReachPF st0 t -> enc_finished (t_st t) = true -> emitted t = stream_of (fed t).
+
+Lemma reader_stream st0 stream_of (r : reader estate) buf_len fuel r' :
+  chunk_independent st0 stream_of ->
+  RInv st0 r -> 0 < buf_len -> read_fuel r <= fuel ->
+  read enc_step enc_finished fuel r buf_len = (Ok [], r') ->
+  emitted (r_enc r') = stream_of (src_taken_bytes (r_src r')).
+Proof.
+  intros Hci HI Hb Hf E.
+  pose proof (read_spec st0 r buf_len fuel HI Hb Hf) as H. rewrite E in H. cbn [read_post] in H.
+  destruct H as (HI' & _ & _ & _ & _ & Hend). destruct (Hend eq_refl Hb) as (Hfin & _ & Htk).
+  rewrite Htk. apply Hci; auto. destruct HI' as (_ & _ & _ & _ & _ & _ & _ & _ & Hr). exact Hr.
+Qed.
+
+End Contract.
+
+(* ------------------------------------------------------------------ the contract is satisfiable *)
+(* A small concrete encoder: "compression" is the identity followed by a terminator byte 255
+   ([framed] = false), or one length-prefixed frame per PROCESS call ([framed] = true - its output
+   depends on how the input is cut into calls, like qualities 0 and 1 of the real encoder).
+   Used for the non-vacuity Examples and for the witnesses of the refutations / known classes. *)
+Inductive tphase := TP | TFl | TFi.
+Record toy := { ty_pend : list byte; ty_phase : tphase }.
+
+Definition tphase_eqb (a b : tphase) : bool :=
+  match a, b with TP, TP | TFl, TFl | TFi, TFi => true | _, _ => false end.
+Definition is_nil {A} (l : list A) : bool := match l with [] => true | _ => false end.
+
+Definition toy_step (framed : bool) (s : toy) (o : op) (inp : list byte) (cap : nat) : eans toy :=
+  if negb (tphase_eqb (ty_phase s) TP) && negb (is_nil inp) then
+    {| ea_state := s; ea_consumed := 0; ea_produced := []; ea_ok := false |}
+  else
+    let absorbed := match o with
+                    | Process => if framed && negb (is_nil inp) then N.of_nat (length inp) :: inp else inp
+                    | _ => inp
+                    end in
+    let term := match o with Finish => if tphase_eqb (ty_phase s) TFi then [] else [255%N] | _ => [] end in
+    let pend1 := ty_pend s ++ absorbed ++ term in
+    let k := Nat.min cap (length pend1) in
+    let pend2 := skipn k pend1 in
+    let phase1 := match o with
+                  | Finish => TFi
+                  | Flush => if tphase_eqb (ty_phase s) TFi then TFi else TFl
+                  | Process => ty_phase s
+                  end in
+    let phase2 := if tphase_eqb phase1 TFl && is_nil pend2 then TP else phase1 in
+    {| ea_state := {| ty_pend := pend2; ty_phase := phase2 |}; ea_consumed := length inp;
+       ea_produced := firstn k pend1; ea_ok := true |}.
+Definition toy_finished (s : toy) : bool := tphase_eqb (ty_phase s) TFi && is_nil (ty_pend s).
+Definition toy_more (s : toy) : bool := negb (is_nil (ty_pend s)).
+Definition toy_accepting (s : toy) : bool := tphase_eqb (ty_phase s) TP.
+Definition toy_live (s : toy) : bool := negb (tphase_eqb (ty_phase s) TFi).
+Definition toy_potential (s : toy) : nat := length (ty_pend s) + (if tphase_eqb (ty_phase s) TFi then 0 else 1).
+Definition toy0 : toy := {| ty_pend := []; ty_phase := TP |}.
+
+Lemma is_nil_true {A} (l : list A) : is_nil l = true <-> l = [].
+Proof. destruct l; cbn; split; congruence. Qed.
+Lemma firstn_min_nonempty {A} (l : list A) cap : 0 < cap -> l <> [] -> firstn (Nat.min cap (length l)) l <> [].
+Proof. intros Hc Hl. destruct l; [congruence|]. destruct cap; [lia|]. cbn. discriminate. Qed.
+Lemma skipn_min0 {A} (l : list A) : skipn (Nat.min 0 (length l)) l = l.
+Proof. reflexivity. Qed.
+
+Lemma toy_contract framed :
+  contract toy (toy_step framed) toy_finished toy_more toy_accepting toy_live toy_potential 2.
+Proof.
+  constructor.
+  - (* consumed *) intros s o inp cap. unfold toy_step. destruct (negb _ && negb _); cbn; lia.
+  - (* produced *) intros s o inp cap. unfold toy_step. destruct (negb _ && negb _); cbn [ea_produced length]; [lia|].
+    rewrite firstn_length. lia.
+  - (* progress, PROCESS *) intros s inp cap Hc Hi. unfold toy_step.
+    destruct (negb _ && negb _); cbn [ea_ok ea_consumed]; [discriminate|].
+    intros _. left. destruct inp; [congruence|cbn; lia].
+  - (* progress, FINISH *) intros s cap Hc. unfold toy_step, toy_finished. cbn [is_nil negb andb app].
+    rewrite andb_false_r. cbn [ea_produced ea_state ty_phase ty_pend tphase_eqb andb].
+    destruct (tphase_eqb (ty_phase s) TFi) eqn:Hp.
+    + rewrite app_nil_r. destruct (ty_pend s) as [|b l] eqn:Hl.
+      * right. cbn [length]. rewrite Nat.min_0_r. reflexivity.
+      * left. apply firstn_min_nonempty; [exact Hc|discriminate].
+    + left. apply firstn_min_nonempty; [exact Hc|]. destruct (ty_pend s); discriminate.
+  - (* progress, FLUSH *) intros s cap Hc. unfold toy_step, toy_more. cbn [is_nil negb andb app].
+    rewrite andb_false_r. cbn [ea_produced ea_state ty_pend]. rewrite app_nil_r.
+    destruct (ty_pend s) as [|b l] eqn:Hl.
+    + right. cbn [length]. rewrite Nat.min_0_r. reflexivity.
+    + left. apply firstn_min_nonempty; [exact Hc|discriminate].
+  - (* PROCESS accepted while accepting *) intros s inp cap Ha. unfold toy_accepting in Ha. unfold toy_step, toy_accepting.
+    rewrite Ha. cbn [negb andb ea_ok ea_state ty_phase]. destruct (ty_phase s); try discriminate.
+    cbn [tphase_eqb andb]. auto.
+  - (* empty FLUSH / FINISH accepted *) intros s o cap Ho. unfold toy_step. cbn [is_nil negb]. rewrite andb_false_r. reflexivity.
+  - (* live *) intros s. unfold toy_accepting, toy_live. destruct (ty_phase s); cbn; congruence.
+  - (* flush done *) intros s cap Hl. unfold toy_step, toy_more, toy_accepting, toy_live in *. cbn [is_nil negb].
+    rewrite andb_false_r. cbn [ea_state ty_pend ty_phase]. rewrite app_nil_r.
+    destruct (tphase_eqb (ty_phase s) TFi); [discriminate|].
+    intros Hm. apply negb_false_iff in Hm. rewrite Hm. reflexivity.
+  - (* flush keeps live *) intros s cap Hl. unfold toy_step, toy_live in *. cbn [is_nil negb].
+    rewrite andb_false_r. cbn [ea_state ty_phase].
+    destruct (tphase_eqb (ty_phase s) TFi); [discriminate|].
+    cbn [tphase_eqb andb]. destruct (is_nil _); reflexivity.
+  - (* PROCESS does not finish *) intros s inp cap Ha. unfold toy_accepting in Ha. unfold toy_step, toy_finished.
+    rewrite Ha. cbn [negb andb ea_state ty_phase]. destruct (ty_phase s); try discriminate. reflexivity.
+  - (* finished is absorbing *) intros s cap Hf. unfold toy_finished in Hf. apply andb_true_iff in Hf.
+    destruct Hf as [Hp Hn]. apply is_nil_true in Hn. unfold toy_step, toy_finished. cbn [is_nil negb]. rewrite andb_false_r.
+    rewrite Hp, Hn. cbn. destruct cap; auto.
+  - (* no finish without room *) intros s o inp Hnf. unfold toy_step.
+    destruct (negb (tphase_eqb (ty_phase s) TP) && negb (is_nil inp)); [exact Hnf|].
+    cbv zeta. cbn [ea_state Nat.min skipn]. unfold toy_finished in *. cbn [ty_phase ty_pend].
+    destruct (tphase_eqb (ty_phase s) TFi) eqn:Hp.
+    + cbn [andb] in Hnf. destruct (ty_pend s) as [|b l]; [discriminate|].
+      cbn [app is_nil]. rewrite !andb_false_r. destruct o; cbn; rewrite ?andb_false_r; reflexivity.
+    + destruct o.
+      * destruct (ty_phase s); try discriminate; cbn; destruct (is_nil _); reflexivity.
+      * cbn [tphase_eqb andb]. destruct (is_nil _); reflexivity.
+      * cbn [tphase_eqb andb]. destruct (ty_pend s ++ inp ++ [255%N]) eqn:E; [|rewrite ?andb_false_r; reflexivity].
+        destruct (ty_pend s); destruct inp; discriminate.
+  - (* potential *) intros s o inp cap. unfold toy_step.
+    destruct (negb (tphase_eqb (ty_phase s) TP) && negb (is_nil inp)) eqn:Hr; [cbn; lia|].
+    cbn [ea_state ea_produced ea_consumed]. unfold toy_potential. cbn [ty_pend ty_phase].
+    set (absorbed := match o with Process => if framed && negb (is_nil inp) then N.of_nat (length inp) :: inp else inp | _ => inp end).
+    set (term := match o with Finish => if tphase_eqb (ty_phase s) TFi then [] else [255%N] | _ => [] end).
+    set (pend1 := ty_pend s ++ absorbed ++ term).
+    assert (Hlen : length (skipn (Nat.min cap (length pend1)) pend1) + length (firstn (Nat.min cap (length pend1)) pend1) = length pend1).
+    { rewrite skipn_length, firstn_length. lia. }
+    assert (Hab : length absorbed <= 2 * length inp).
+    { unfold absorbed. destruct o; try lia. destruct (framed && negb (is_nil inp)) eqn:Hfr; [|lia].
+      apply andb_true_iff in Hfr. destruct Hfr as [_ Hfr]. destruct inp; [discriminate|cbn; lia]. }
+    assert (Hp1 : length pend1 = length (ty_pend s) + length absorbed + length term).
+    { unfold pend1. rewrite !app_length. lia. }
+    destruct o; unfold term in *; cbn [length] in *.
+    + (* Process *) destruct (ty_phase s) eqn:Hph; cbn [tphase_eqb andb]; try lia;
+        destruct (is_nil _); cbn [tphase_eqb]; lia.
+    + (* Flush *) destruct (tphase_eqb (ty_phase s) TFi) eqn:Hph; cbn [tphase_eqb andb].
+      * lia.
+      * destruct (is_nil _); cbn [tphase_eqb]; lia.
+    + (* Finish *) cbn [tphase_eqb andb].
+      destruct (tphase_eqb (ty_phase s) TFi) eqn:Hph; cbn [length] in *; lia.
 Qed.
